@@ -12,833 +12,368 @@ Definition show_fres (r : fres) : string :=
   end.
 Definition check (rs : list rune) : string := digest (show_fres (format_res rs)).
 Definition full (rs : list rune) : string := show_fres (format_res rs).
-Eval vm_compute in ("<<<M134>>>" ++ check (runes_of_ascii "packet int
-    {
-match Pad as	Z9_ { [65535,
-    ""// no comment"" , ""a	b""//x
-, // " ++ [128512]%N ++ runes_of_ascii " emoji
-""CRC32"" ,
-00 , 0123456789 , 0]
-:  Z9_
-4294967296
-: stringy ,""""//
-: f32a
-    ,
-"""" :
-//	t
-// " ++ [27880; 37322]%N ++ runes_of_ascii "
-Header, [""it's"" , 1,""1"" ] :
-msg_type , } , @leftPad ( )
-f32 Foo
-    // `tick` ""quote"" 'q'
-    ``	, charz {
-repeat int8
-options1  ,repeat  char[]
-T
-,
-repeat string
-crc // c
-`doc`
-    //x
-    , uint8x`a\`
-    ,} ,} packet
-    Logon{ A, u8
-metadata , @lengthOf( trueish )
-// a // b
-// packet A { u8 x, }
-@lengthOf(u8x) @lengthOf( A)
-    // " ++ [27880; 37322]%N ++ runes_of_ascii "
-    repeat string
-trueish
-    // " ++ [128512]%N ++ runes_of_ascii " emoji
-    , @tag( 3) match
-    rootA as
-    Pad // @lengthOf(
-{42 :msg_type,[ 0
-    // a // b
-    ,
-// trailing space 
-// `tick` ""quote"" 'q'
-""" ++ [128512]%N ++ runes_of_ascii """ ,00
-] : asx
-, [ """ ++ [233]%N ++ runes_of_ascii "t" ++ [233]%N ++ runes_of_ascii """ ,""{,}""
-,""" ++ [233]%N ++ runes_of_ascii "t" ++ [233]%N ++ runes_of_ascii """ , 255 ] //	t
-:T ""x y"" : calculatedFrom
-[
-""a	b""	,0123456789	,
-    ""{,}"" ,
-    3 , 3
-, 7 ,
-    4294967296 ,  4294967296 ]: Header , [0,4294967296,
-    10
-    // packet A { u8 x, }
-    ,
-007 , 007 ,1 , ""1"",	""`tick`""
-    //	t
-    ] : Packet }/// triple
-,
-    zchar[
-0
-    ] asx @lengthOf( x_y_z
-    )
-`{ , }`
-,
-repeat char[
-    7 ] leftPad, stringy`` , falsey //
-repeatCount
-`{ , }` ,}packet
-    MetaDataX // packet A { u8 x, }
-{
-options1,	}
-    // " ++ [27880; 37322]%N ++ runes_of_ascii "
-    packet
-    zchar { // " ++ [27880; 37322]%N ++ runes_of_ascii "
-uint16 falsey ,  match string_ as BodyLength {
-[
-    4294967296 , 42 ,255 , ""1""
-, """ ++ [28040; 24687]%N ++ runes_of_ascii """ ,""packet"" ,""`tick`"" ]
-: Logon ,
-7 : packetx , } , @leftPad  (
-) @calculatedFrom(
-    /// triple
-    ""\n"" )
-    @leftPad  () match T as
-packetx {""1"" :options1, } //
-,uint8 MetaDataX@lengthOf(	roots  ), @tag( 0123456789 //	t
-) body// packet A { u8 x, }
-@calculatedFrom( ""packet"" // @lengthOf(
-)
-// c
-// trailing space 
-`{ , }` ,@lengthOf(	roots )
-zchar[ 0123456789 ]
-repeatCount
-    , repeat int32 matchKey `a\` , @lengthOf(
-    options1 )u8 pack , @rightPad( ' ' ) float32 f32a
-    , @rightPad (
-    /// triple
-    '\x00' )
-    @rightPad(	) @calculatedFrom(// trailing space 
-""CRC32"" )repeat
-pack { // @lengthOf(
-zchar[00 ] falsey ``
-    , match calculatedFrom	as // c
-leftPad { 65535 // trailing space 
-: // packet A { u8 x, }
-Z9_
-    , 007//x
-:
-charz,} , repeat zchar[7] Pad ,} , }
-//x
-")).
-Eval vm_compute in ("<<<M1153>>>" ++ check (runes_of_ascii "
-root packet
-a1 { repeat zchar int ,
-string u ,
-string u8x @lengthOf( msg_type ) , rootA `it's`
-, @tag(
-    255 ) //x
-uint16 packetx
-    @lengthOf( Z9_ ) `it's` ,
-@leftPad( '\x00')  uint8
-zchar , @tag( 007 ) @tag(// trailing space 
-4294967296 )
-trueish	@lengthOf( i64_ )
-,  uint8 repeatCount`crlf
-line` , string
-metadata ,
-    match  len as
-    metadata {0	: Packet,
-    } , } packet As { repeat i8
-T ,
-    pack , @lengthOf( stringy
-) char[0	]
-Pad , repeat char[ 0 ]
-tag ,
-    @lengthOf(roots)uint16
-    // a // b
-    string_// " ++ [128512]%N ++ runes_of_ascii " emoji
-@lengthOf(
-    // a // b
-    zchar ) `{ , }` ,
-@lengthOf(a1 // " ++ [128512]%N ++ runes_of_ascii " emoji
-) repeat x_y_z
-    { int8
-f32a, packetx{match Header	as Packet
-{  [
-// @lengthOf(
-// trailing space 
-""it's""] :
-uint8x
-    1 : u128
-    ,
-""\" ++ [233]%N ++ runes_of_ascii """
-:MetaDataX
-, [""a\\"" ,	1, ""x y""] : f32a ,
-    65535 : BodyLength
-, }
-    ,
-msg_type @calculatedFrom( ""abc""
-    )
-    //
-    `// not a comment` , match chars as
-Header {
-7:x_y_z, 10
-    : matchKey /// triple
-,
-""x y""
-: // " ++ [128512]%N ++ runes_of_ascii " emoji
-x_y_z ,007	: float , }
-, // a // b
-uint8x u , },	repeat Foo { //	t
-repeat float64 chars , //x
-match
-    len
-//
-//x
-as Pad { [ ""\" ++ [233]%N ++ runes_of_ascii """ , 1 ] :
-    u8x  ,
-10:i64_	[  ""CRC32""  ] : Logon
-    ,[""CRC32"" ,  255
-    ]  :
-u8x , }
-,
-} ,
-    } ,
-@lengthOf( Packet ) @leftPad (	'0'
-) @rightPad
-    // c
-    (
-) zchar[3
-]uint8x//
-,	match int as pack {
-    // " ++ [128512]%N ++ runes_of_ascii " emoji
-    [ 3 ] :
-string_  ""a\""b"" : repeatCount ,
-    007 :	zchar} ,repeat uint8 lengthOf`// not a comment` , } options { Logon = ""packet""
-// @lengthOf(
-// `tick` ""quote"" 'q'
-rootA=//	t
-true
-    packetx = false f32a =  ""a\\"" }
-    root packet
-u {  repeat char[] body , //
-@calculatedFrom( ""a\""b"" )
-    @lengthOf( Foo ) A
-@calculatedFrom( ""{,}"" ) , } options
-{ trueish = 0 charz= ""abc"" }")).
-Eval vm_compute in ("<<<M1322>>>" ++ check (runes_of_ascii "options { rootA = """" BodyLength = 0123456789 ; roots =
-    string options1=
-' ' } root packet
-int {repeat zchar[ 00	]
-Logon, repeat	uint16
-    //	t
-    body `// not a comment` , @calculatedFrom(	""a\""b"")repeat
-    string MetaDataX
-    `a\` , string lengthOf `" ++ [28040; 24687; 31867; 22411]%N ++ runes_of_ascii "` ,
-    @tag( 3 ) trueish calculatedFrom , //
-} root
-packet i64_ {
-zchar[ 007
-] //x
-rootA
-    `" ++ [28040; 24687; 31867; 22411]%N ++ runes_of_ascii "` , @leftPad ( ' ')
-@calculatedFrom(""a\\""	) @calculatedFrom(
-    // @lengthOf(
-    ""a\""b"")
-repeat	f64 trueish	`" ++ [233]%N ++ runes_of_ascii "`, repeat int { match msg_type as asx
-    {"""" : u128 , [ //
-""1"" ,
-//	t
-// trailing space 
-""\" ++ [233]%N ++ runes_of_ascii """ ]
-: options1 ,  ""x y""	: u8x,
-""// no comment"" : BodyLength  , [
-    7	,  ""a\""b""	, 4294967296 ]
-: asx ,
-} , crc @calculatedFrom(  """" )  ,
-    // `tick` ""quote"" 'q'
-    match metadata as lengthOf
-{
-[4294967296
-, ""a	b"",""packet"", ""// no comment"" ]
-    // a // b
-    : repeatCount
-    // c
-    , }
-    // @lengthOf(
-    , u128
-    { crc ,repeat options1  , uint64 BodyLength ,matchKey
-    `
-` ,
-} ,}
-    , @lengthOf(zchar ) int8 lengthOf `say ""hi""`  , }	root packet pack  {	@calculatedFrom( ""a	b"" )
-    // " ++ [27880; 37322]%N ++ runes_of_ascii "
-    Pad, @calculatedFrom( ""packet"" ) match u as leftPad
-    { [ ""{,}""]
-:// `tick` ""quote"" 'q'
-A""{,}"" : u128 [  ""1""
-    ,007 ]
-:  a1
-    ,
-[ ""1"" ] :
-Packet
-4294967296:
-    i8i8 , 00 :
-// " ++ [128512]%N ++ runes_of_ascii " emoji
-// @lengthOf(
-roots
-,
-//
-// packet A { u8 x, }
-}	,//
-char[0123456789  ] calculatedFrom`say ""hi""`
-,	uint8 int @calculatedFrom(
-    ""a\\""
-),Packet pack,// c
-}
-")).
-Eval vm_compute in ("<<<M1049>>>" ++ check (runes_of_ascii "
-packet
-charz {  match Packet as x_y_z {
-    """" :f32a
-    , [255 // " ++ [27880; 37322]%N ++ runes_of_ascii "
-,
-4294967296 ,0 ,
-    4294967296 ,
-10 , 00
-]
-:
-crc""{,}"" :Foo , 65535	:
-    // a // b
-    Pad 10 :Logon,
-}
-    ,	repeat  Foo {
-match  tag
-as matchKey {[ 65535, 3 ]  :
-    //
-    body  , 10: A , 42 :
-    body
-    , 007 : As ,  [
-    // trailing space 
-    ""a\\""
-// " ++ [128512]%N ++ runes_of_ascii " emoji
-//x
-] : msg_type ,
-[
-0123456789, 255 ] : msg_type
-    /// triple
-    ,	} , u16// " ++ [128512]%N ++ runes_of_ascii " emoji
-MetaDataX
-, o { match
-    T as string_ { 0	:
-// packet A { u8 x, }
-/// triple
-trueish,
-    3 : MetaDataX ,
-    //x
-    ""packet"" :
-rootA ,
-    7 : o[
-""a\\""
-    // trailing space 
-    , 42 ,//
-0123456789 , ""a	b"",
-    // " ++ [27880; 37322]%N ++ runes_of_ascii "
-    ""packet"" ] /// triple
-: f32a , [ ""a	b""
-    , 4294967296 ,""packet""	, 65535 ] :
-    falsey,
-} ,}
-, },packetx u ``// c
-,@tag(	42
-    // a // b
-    )u32
-    f32a  ``
-,msg_type@lengthOf( matchKey )	`{ , }` ,  @leftPad ( ' ' )
-char[] asx @calculatedFrom( """ ++ [28040; 24687]%N ++ runes_of_ascii """
-    )
-    ,
-/// triple
-// " ++ [128512]%N ++ runes_of_ascii " emoji
-zchar[ 3 ]rootA ,	uint16 // a // b
-u8x `two words`
-, @rightPad
-('0' ) match zchar/// triple
-as
-repeatCount {
-    ""a\\"" : T , ""a\\"" : As,[ 255, ""// no comment"" , 4294967296 , ""x y""
-//	t
-//x
-, ""{,}""
-,	00 , 7 ,""it's"" ] :
-leftPad ,007//
-: zchar
-, ""a	b""
-    :
-    // packet A { u8 x, }
-    falsey,
-}
-, }options {
-lengthOf
-    = '0'// a // b
-}
-")).
-Eval vm_compute in ("<<<M1126>>>" ++ check (runes_of_ascii "packet // `tick` ""quote"" 'q'
-BodyLength {char[ 3//
-]i64_ @calculatedFrom( ""`tick`"" )  `line1
-line2`
-    // trailing space 
-    ,@leftPad// " ++ [128512]%N ++ runes_of_ascii " emoji
-(
-) x `two words` // trailing space 
-,zchar[ 0123456789 ]
-pack
-// a // b
-//	t
-@calculatedFrom(""a\""b""//
-) `crlf
-line`	,	calculatedFrom{ char[
-    255 ] MetaDataX @calculatedFrom( ""packet"" ) `doc` , zchar[
-    //x
-    007
-]leftPad `crlf
-line`,
-uint8x
-    @calculatedFrom(
-""a\""b"") ,
-//
-//
-MetaDataX  _x , },@calculatedFrom( // " ++ [27880; 37322]%N ++ runes_of_ascii "
-""packet"" )
-zchar[  7] repeatCount
-    `" ++ [28040; 24687; 31867; 22411]%N ++ runes_of_ascii "`
-, @lengthOf(Foo ) // " ++ [128512]%N ++ runes_of_ascii " emoji
-int64  A @lengthOf(	charz	)``
-    , @tag(	7
-    ) packetx
-@calculatedFrom( """")`a\`,  } root
-packet u128 { } packet
-Logon {
-    T {
-T
-    @lengthOf(
-// a // b
-//	t
-u8x ) `tab	here` // packet A { u8 x, }
-,
-As `u8 x,`,
-}  , int64
-    T
-, i64 tag // `tick` ""quote"" 'q'
-@lengthOf( i64_ )
-    , @lengthOf( metadata
-) repeat i8
-rootA , int64 Foo // trailing space 
-@lengthOf( a1	) , chars
-    {  string// @lengthOf(
-packetx // a // b
-@lengthOf(chars
-) `" ++ [233]%N ++ runes_of_ascii "` , a1 @calculatedFrom(""a\""b"" ), char[] crc // packet A { u8 x, }
-@lengthOf(i8i8 // " ++ [128512]%N ++ runes_of_ascii " emoji
-)
-    , } , }options{ matchKey  =	' '
-    asx = true ; MetaDataX=	""it's""; }
-
-")).
-Eval vm_compute in ("<<<M207>>>" ++ check (runes_of_ascii "
-root packet	msg_type {u128//
-, @calculatedFrom(
-""" ++ [233]%N ++ runes_of_ascii "t" ++ [233]%N ++ runes_of_ascii """ ) repeat char[
-    //
-    3]
-    metadata`crlf
-line`,
-char[255 ]	Pad
-,  asx @calculatedFrom(""packet"" )
-    , repeat stringy `tab	here`
-    ,
-//x
-//	t
-repeat //x
-As `two words`, @leftPad ( '\x00'
-    ) repeat matchKey`a\`	, @rightPad (' ' ) repeat/// triple
-Pad
-{ repeat
-    u
-,
-// trailing space 
-// packet A { u8 x, }
-repeat char[] uint8x , }
-    ,
-u128	{ repeat
-As `u8 x,` ,
-pack msg_type,	uint32 lengthOf @calculatedFrom( ""1""	), match roots as
-    // " ++ [128512]%N ++ runes_of_ascii " emoji
-    x{ ""{,}"" :
-    // " ++ [27880; 37322]%N ++ runes_of_ascii "
-    Pad
-    }
-    ,  } ,}
-root packet tag
-{string pack , } root
-packet u8x
-    {
-string
-    pack `doc` , @lengthOf( options1
-    )f32	matchKey @calculatedFrom( ""`tick`"" )
-`two words` , @leftPad (  '\x00' )@lengthOf( Packet) @tag( 007//x
-)
-int32
-    Pad	@calculatedFrom(""a\\""
-)
-, @calculatedFrom( """" ) string a1 @lengthOf( metadata ) ,match u128 as Foo {
-    [ ""`tick`"" ]
-: msg_type
-    ,
-    10 // a // b
-:
-msg_type, 00
-:  len, ""`tick`"" : _x ,1 : repeatCount
-    , [ 1 , //	t
-1 ] :
-    // packet A { u8 x, }
-    pack ,} , @leftPad ( )
-float64 pack
-    `
-` ,
-    }")).
-Eval vm_compute in ("<<<M1316>>>" ++ check (runes_of_ascii "packet
-calculatedFrom { Pad { match
-    tag as metadata {
-    ""x y"":tag 10 :Packet,[ 007
-, ""it's"" ,
-    0
-, 3
-,
-4294967296
-    // c
-    ,""" ++ [28040; 24687]%N ++ runes_of_ascii """ , ""\n"" ,""a	b"" ] : Logon , 3 : A ,
-    [
-0123456789 ] : leftPad, } , } ,//	t
-@lengthOf( int
-) repeat char[ 255 ] msg_type `" ++ [28040; 24687; 31867; 22411]%N ++ runes_of_ascii "` , Pad @calculatedFrom(""" ++ [233]%N ++ runes_of_ascii "t" ++ [233]%N ++ runes_of_ascii """ ) , @tag(65535)  f32 u128 `// not a comment` ,zchar[ //x
-3 ]
-    leftPad
-// trailing space 
-// " ++ [27880; 37322]%N ++ runes_of_ascii "
-`" ++ [28040; 24687; 31867; 22411]%N ++ runes_of_ascii "`,@rightPad( ' ' ) @lengthOf( roots ) /// triple
-repeat char[
-    10]
-leftPad,Logon charz
-    // @lengthOf(
-    `line1
-line2` , } MetaData _x
-{ string Z9_
-`tab	here`
-,u _x ``
-    , zchar[
-    10]
-asx
-`line1
-line2`, u128 Logon , char[
-    7
-] u128 , options1	repeatCount , }options {} packet
-    /// triple
-    body
-    {// `tick` ""quote"" 'q'
-@calculatedFrom( ""a	b""
-)  char[] len
-,	@lengthOf( Packet )
-    match
-//	t
-/// triple
-zchar as i64_{ [ ""x y"",""" ++ [28040; 24687]%N ++ runes_of_ascii """ ,	3, 65535
-    ,""`tick`"" , ""{,}"" , ""\" ++ [233]%N ++ runes_of_ascii """ , 42 ] : i64_ ,} ,
-matchKey
-chars , @lengthOf( x_y_z
-// packet A { u8 x, }
-//
-) @tag( 00 )a1 @lengthOf(repeatCount ) // trailing space 
-,}
-
-")).
-Eval vm_compute in ("<<<M4438>>>" ++ check (runes_of_ascii "root packet chars {
-    @tag(1)
-    zchar[0123456789] MetaDataX,
-    f32 Packet,
-    @rightPad(' ')
-    repeat chars {
-        o stringy `crlf
-                line`,
-        matchKey int,
-    },
-}
-
-packet uint8x {
-    match stringy as len {
-        ""CRC32"" : trueish,
-        [3, 42] : x_y_z,
-        ""CRC32"" : leftPad,
-        // " ++ [128512]%N ++ runes_of_ascii " emoji
-        [
-            3, 42, ""a\\"", ""1"", ""it's"",
-            255, ""CRC32"", 0123456789
-        ] : uint8x,
-        //	t
-        [
-            42, ""a	b"", 7, 65535, 42,
-            """", """"
-        ] : x_y_z,
-    },
-    repeat trueish {
-        repeat As `u8 x,`,
-    },
-    repeat chars `two words`,
-    @rightPad('\x00')
-    repeat f64 _x `" ++ [233]%N ++ runes_of_ascii "`,
-    repeat i16 u `say ""hi""`,// c
-    @lengthOf(x)
-    i8i8 {
-        match options1 as a1 {
-            1 : u128,
-        },
-    },
-    string chars,
-    repeat char[] Logon `it's`,
-    u8 float @lengthOf(o) `{ , }`,
-    @lengthOf(int)
-    @tag(1)
-    asx @calculatedFrom(""\" ++ [233]%N ++ runes_of_ascii """),// `tick` ""quote"" 'q'
-}")).
-Eval vm_compute in ("<<<M4501>>>" ++ check (runes_of_ascii "options
-{ StringPrefixLenType
-
+Eval vm_compute in ("<<<M88>>>" ++ check (runes_of_ascii "options  { BodyLength
 =
-
-    u32;
-    ArrayPrefixLenType
-    =u8 
-;	FixedStringPadFromLeft
-= false	;
-    }
-
-    packet	Logon { i8
-venue	, int16
-	f1
-    ,	zchar[8 
-]
-    Acct 
-, repeat InNote16 
-{ InQty73 {
-
-float32 tag7
-
-,  }
-
-, 
-f32 
-Acct
-
-    , zchar[ 5
-	]
-sym	,
-}
-	, uint16
-Side2
-	,	i32
-	lastPx  , }
-    packet
-Fill
-{ repeat
-
-InOrderid15
-{ zchar[
-	8 ]
-	sym  , repeat
-	char[2
-] OrderId
-
-    ,
-
-    repeat Logon, InQty82
-
-    {
-	char[]  Tail,
-repeat Logon , float64  price
-	,
-
-    f64  Side2
-
-,	}
-
-    ,
-
-char[  12
-	]
-venue
-    ,char[ 4 ]
-Px
-    , 
-} ,  @rightPad	( '0'
-	)
-char[
-2 
-]venue,
-	InPrice99 {
-	InAcct72{u8
-    pad0
-
-,}	,
-    u32	OrderId ,Logon
-
-,
-
-    }
-    ,  }  root
-
-    packet
-	Reject
-
-{ zchar[
-	9]
-	msgKind,u32
-venue  ,
-u16
-
-    seqNo
-    @lengthOf(Body
-
-) 
-,
-    match venue as Body 
-{  57
-:
-
-    Fill,  8
-
-    :
-    Logon
-
-    ,
-
-}
-
-, 
-u16
-	Tail
-@calculatedFrom(
-
-""CR\
-C32""),}
-")).
-Eval vm_compute in ("<<<M570>>>" ++ check (runes_of_ascii "MetaData charz{ }	packet
-tag // " ++ [27880; 37322]%N ++ runes_of_ascii "
-{
-    @tag( 00) i64 i8i8
-    `// not a comment`  , repeat options1, char[]  float , string a1
-,
-i8 asx ,
-// @lengthOf(
-// c
-match
-u as // " ++ [27880; 37322]%N ++ runes_of_ascii "
-BodyLength
-{ 65535: A ,} , } packet msg_type {@calculatedFrom( """ ++ [28040; 24687]%N ++ runes_of_ascii """ )Foo , @calculatedFrom( ""a\""b"" ) char[ 0123456789]
-    lengthOf	@lengthOf( a1	)	,  repeat stringy Header `
-`  , match	o as float{
-    ""// no comment"" : Pad
-, ""a\\"" :string_ , } , @leftPad
-// @lengthOf(
-//
-( ) match tag as body
-{0 : o,// " ++ [128512]%N ++ runes_of_ascii " emoji
-10 :
-charz ,7
-:u
-,
-    65535 // trailing space 
-:Header
-    ,
-    255 : body , }, } options //	t
-{ } root packet leftPad {
-@rightPad( ' ' ) i8 zchar ,
-    @calculatedFrom(
-""abc"" )metadata @lengthOf(
-    // c
+    string; trueish	=""it's"" i8i8
+    =  ""// no comment""
+    // trailing space 
+    roots
+// a // b
+// packet A { u8 x, }
+=// `tick` ""quote"" 'q'
+""" ++ [28040; 24687]%N ++ runes_of_ascii """ ;// a // b
+falsey = '\x00' ; } packet metadata{
     packetx
-    ) , @tag(
-65535 ) string crc  @lengthOf(Z9_ /// triple
-) , @rightPad (' ') uint32 u8x
-// `tick` ""quote"" 'q'
-// c
-`say ""hi""`,@tag( //x
-255)
-    @lengthOf(x_y_z ) As , }")).
-Eval vm_compute in ("<<<M4259>>>" ++ check (runes_of_ascii "packet i8i8 {
-    options1 @calculatedFrom(""packet"") `crlf
-        line`,
-    @rightPad(' ')
-    string lengthOf `" ++ [233]%N ++ runes_of_ascii "`,
-    u64 string_,
-}
-
-options {
-    options1 = false;
-}
-
-MetaData u {
-    a1 options1,
-    lengthOf x_y_z `line1
-        line2`,// c
-    MetaDataX rootA,
-    zchar[255] len,
-    char[007] int `say ""hi""`,
-    // @lengthOf(
+    { repeat rootA x_y_z `tab	here` , repeat pack
+, Logon {
+    u16 msg_type , u8 BodyLength
+`
+`,
+zchar[
+3 ] int  ,} ,
+a1
+T, }
+, // `tick` ""quote"" 'q'
+repeat f32 o `crlf
+line`
+, i32 rootA, int32  matchKey , @leftPad
+// a // b
+// @lengthOf(
+( )
+x_y_z {	match body	as	u8x
+    { [ ""{,}"" ]:u8x	, 3:
+u8x , 4294967296: As ,
+[ ""CRC32"" ]:A
+,
+255 // packet A { u8 x, }
+: body
     //
-    char[4294967296] stringy,//	t
+    , // c
+42
+    :
+x_y_z }
+, } , repeat
+body float
+, } // trailing space 
+packet trueish
+{ stringy @lengthOf( float )	`{ , }`
+,repeat// packet A { u8 x, }
+i64_ ,
+    uint16 string_
+    // `tick` ""quote"" 'q'
+    @calculatedFrom(
+""\" ++ [233]%N ++ runes_of_ascii """)
+`
+`	, // a // b
+@tag( 0123456789)char[
+    //x
+    4294967296 ]
+    calculatedFrom @lengthOf( int )`line1
+line2`	, // packet A { u8 x, }
+match rootA as asx
+{	""\" ++ [233]%N ++ runes_of_ascii """: f32a, ""\n"" :
+    rootA [ ""a\\""
+//
+//
+, 0123456789 ] : crc
+,1 : msg_type , ""a	b"" :stringy// packet A { u8 x, }
+, }
+    // " ++ [27880; 37322]%N ++ runes_of_ascii "
+    ,repeat len	{ string_{i16 _x , _x { repeat uint8x a1
+, char[ 42
+    ]	zchar
+    `say ""hi""` , zchar[ 7  ] uint8x ,
 }
-
-root packet u8x {
-    Z9_ @lengthOf(Packet),
-    @calculatedFrom(""packet"")
+    ,repeat i8i8 body, }
+    // " ++ [128512]%N ++ runes_of_ascii " emoji
+    , uint8
+T	@lengthOf(
+repeatCount ), } ,}root packet asx { @calculatedFrom(	""x y""
+)
+repeat pack ,repeat string_ { u8 metadata
+,} ,  @calculatedFrom( ""abc"" )	roots
+@lengthOf(
+    T
+) `` , match asx as uint8x
+{ 3: u8x, }
     // a // b
-    @rightPad('0')
-    @calculatedFrom(""it's"")
-    packetx `" ++ [28040; 24687; 31867; 22411]%N ++ runes_of_ascii "`,
-    float64 Packet @calculatedFrom(""`tick`"") `a\`,
-    @leftPad('0')
-    match len as rootA {
-        // `tick` ""quote"" 'q'
-        ""x y"" : uint8x,
-        ""1"" : asx,
-        ""a\""b"" : u8x,
-    },// " ++ [27880; 37322]%N ++ runes_of_ascii "
-    @lengthOf(tag)
-    trueish As,
-    @lengthOf(falsey)
-    zchar[1] a1,
+    ,// trailing space 
+u8x@calculatedFrom( ""{,}"" ) , } packet o // " ++ [128512]%N ++ runes_of_ascii " emoji
+{ string Logon ,charz metadata , match// c
+len as
+float{
+255
+    :
+    //	t
+    uint8x , ""CRC32"": As ,
+    1
+    : body , 7
+:	options1 ,[	""" ++ [128512]%N ++ runes_of_ascii """,""it's"" //
+]:
+    repeatCount}, @leftPad ( ) @calculatedFrom( ""x y"" )  @leftPad(  ' ' )repeat lengthOf,zchar[
+42  ]
+    Logon@calculatedFrom(// packet A { u8 x, }
+"""" ), }
+//x
+")).
+Eval vm_compute in ("<<<M1484>>>" ++ check (runes_of_ascii "
+
+  packet
+    tag  { repeat stringy
+{repeat  i32	lengthOf 
+,// trailing space 
+    string
+
+    msg_type// " ++ [27880; 37322]%N ++ runes_of_ascii "
+	@calculatedFrom(  // " ++ [128512]%N ++ runes_of_ascii " emoji
+    	""// no comment""
+)
+
+    `" ++ [233]%N ++ runes_of_ascii "`	,zchar 
+{ x 
+@calculatedFrom( """ ++ [28040; 24687]%N ++ runes_of_ascii """
+)
+
+    ,
+repeat
+
+u8x
+
+    len	, zchar[ 255
+
+]  i8i8 , } ,
+x @calculatedFrom(
+
+    ""CRC32"" ) ``
+
+    ,
+	}  ,
+	packetx 
+//	t
+  //	t
+u8x ,
+@calculatedFrom( 
+""packet""  )zchar[007	] body
+    @calculatedFrom(
+    ""CRC32""
+)
+
+,
+@lengthOf(
+
+x_y_z  /// triple
+	)  char[]
+int `" ++ [28040; 24687; 31867; 22411]%N ++ runes_of_ascii "` ,  zchar[
+	42
+    ]
+
+    Logon
+    @calculatedFrom( ""// no comment""),int8
+    f32a  ,
+    }packet 
+As  {
+@calculatedFrom(
+""it's""
+	)	int64
+msg_type
+    @calculatedFrom(  ""a\""b""
+)	`it's`
+    ,
+	i8i8 pack
+, tag { i64 _x, match As
+    as
+f32a
+{  // trailing space 
+
+007	:
+_x ,
+0123456789
+:
+metadata
+
+,
+	}
+, } ,
+
+@lengthOf(	body )
+
+    repeat 
+u8
+f32a
+    ``
+,
+	char[] Pad
+
+    `line1
+line2`,
+@lengthOf(
+msg_type )  string
+len  ,	@lengthOf(
+    a1
+
+    ) @tag(
+	00  )
+	@rightPad
+	(
+    '\x00') 
+char[
+
+65535
+
+]
+Header	,  // trailing space 
+	@calculatedFrom(  
+      // a // b
+
+""1""
+
+)
+	@calculatedFrom(
+	""a\\""  )
+
+// @lengthOf(
+      @lengthOf(  body 
+	    //
+	// " ++ [27880; 37322]%N ++ runes_of_ascii "
+    )
+
+i8 
+x_y_z
+    ,
+}root packet a1 { 
+} packet A{
+
+} 
+	// " ++ [128512]%N ++ runes_of_ascii " emoji
+    packet 
+calculatedFrom {  }
+")).
+Eval vm_compute in ("<<<M2029>>>" ++ check (runes_of_ascii "packet zchar {
+    i8 uint8x `a\`,
+    match leftPad as matchKey {
+        007 : f32a,
+        7 : falsey,
+        3 : _x,
+        [""1""] : u8x,
+        //	t
+        ""it's"" : i8i8,
+        10 : pack,
+    },
+    repeat string rootA `say ""hi""`,
+    repeat int32 repeatCount `" ++ [233]%N ++ runes_of_ascii "`,
+    @lengthOf(calculatedFrom)
+    zchar[4294967296] T,
+    @tag(4294967296)
+    crc @calculatedFrom(""""),
+    @calculatedFrom(""abc"")
+    u8x @lengthOf(o) `crlf
+    line`,
 }
 
-root packet body {
+packet T {
+    i64 repeatCount,
+    calculatedFrom pack,
+    @calculatedFrom(""`tick`"")
+    f32a Foo,
+    match body as string_ {
+        ""packet"" : uint8x,
+        // @lengthOf(
+        """ ++ [128512]%N ++ runes_of_ascii """ : body,
+        007 : Logon,
+        ""it's"" : leftPad,
+        [""x y"", 255, ""\" ++ [233]%N ++ runes_of_ascii """, 1, 0123456789] : options1,
+    },
+    @rightPad('\x00')
+    // packet A { u8 x, }
+    match As as roots {
+        4294967296 : len,
+        """ ++ [28040; 24687]%N ++ runes_of_ascii """ : msg_type,
+    },
+    f32 chars,
+    // `tick` ""quote"" 'q'
+    // @lengthOf(
+    repeat calculatedFrom,
+    @calculatedFrom(""x y"")
+    f32 roots `{ , }`,
+}
+
+root packet calculatedFrom {
 }")).
-Eval vm_compute in ("<<<M3529>>>" ++ check (runes_of_ascii "options {
+Eval vm_compute in ("<<<M101>>>" ++ check (runes_of_ascii "MetaData
+    asx
+{ }
+    options{
+body =
+//x
+// @lengthOf(
+char[] ;// @lengthOf(
+repeatCount =true ;
+    packetx= ""a\""b""; float
+=
+""x y"" ; zchar
+    // @lengthOf(
+    = ""\" ++ [233]%N ++ runes_of_ascii """ ; } MetaData _x{
+u16 falsey  `` , } root packet
+    metadata {  }	packet Foo { repeat
+    // trailing space 
+    u128
+    , @tag(// trailing space 
+7
+) uint16
+MetaDataX
+    , @tag(1 )
+    /// triple
+    falsey `say ""hi""` , @rightPad ( //	t
+) @tag(3 ) u , @lengthOf( roots// " ++ [128512]%N ++ runes_of_ascii " emoji
+) match body as repeatCount
+{ ""CRC32"" // " ++ [27880; 37322]%N ++ runes_of_ascii "
+: asx  , 42	:  msg_type
+} ,// packet A { u8 x, }
+stringy {repeat char[
+    // c
+    3
+] uint8x ,	match
+Logon
+as	A{ ""abc"" :i8i8 , }  ,match BodyLength as len
+    { [0123456789 ,
+//
+// @lengthOf(
+007
+    ,4294967296,""{,}""
+]:// " ++ [128512]%N ++ runes_of_ascii " emoji
+Foo , } //	t
+, } , @leftPad ( '0'  ) uint8x
+@lengthOf(i8i8) ,//	t
+_x
+    {repeat x  `line1
+line2` , }, @tag( 42 )
+falsey
+    // trailing space 
+    u128 // trailing space 
+, int64 MetaDataX ,}
+")).
+Eval vm_compute in ("<<<M1603>>>" ++ check (runes_of_ascii "options {
     LittleEndian = false;
     StringPrefixLenType = u16;
     ArrayPrefixLenType = u64;
     FixedStringPadFromLeft = true;
     FixedStringPadChar = ' ';
 }
+
 packet Logon {
     u16 Tail,
     repeat string x,
     i16 count,
-    @leftPad('0') char[3] Note,
+    @leftPad('0')
+    char[3] Note,
 }
+
 packet Fill {
 }
+
 packet Heartbeat {
 }
+
 packet Reject {
     string msgKind,
     repeat Logon,
@@ -853,6 +388,7 @@ packet Reject {
     },
     repeat Heartbeat,
 }
+
 root packet Order {
     InNote88 {
         repeat i32 Acct,
@@ -866,571 +402,223 @@ root packet Order {
         93 : Reject,
         13 : Fill,
     },
+}")).
+Eval vm_compute in ("<<<M1538>>>" ++ check (runes_of_ascii "options {
+    LittleEndian = false;
+    StringPrefixLenType = u16;
+    ArrayPrefixLenType = u32;
 }
-")).
-Eval vm_compute in ("<<<M4459>>>" ++ check (runes_of_ascii "
-// top
-  packet 
-    // c0
-      Sub	// c1
-	{ 
 
-    // c2
-    	u8 	 // c3a
-	// c3b
+packet Order {
+    uint8 x,
+    repeat string venue,
+}
 
-  a 	 // c4
-    ,// c5
-u32
-	SubSum
-@calculatedFrom( 	 // c8a
-    // c8b
-	""CRC16"" 
-	    // c9
-    ) 	 // c10a
-    	// c10b
-  , }	// c12a
-	  // c12b
-    	root  // c13
-	  packet 
-
-    // c14
-	Frame// c15a
-  // c15b
-
-  { 	 // c16a
-
-// c16b
-u16 
-    // c17
-		MsgType // c18a
-      // c18b
-  , 
-	    // c19
-    	u16 	 // c20a
-
-// c20b
-	  BodyLen // c21
-  @lengthOf( 
-
-// c22
-	  Body)
-
-    , Sub// c26a
-	// c26b
-	Body
-
-    // c27
-    ,	// c28
-      string note
-    // c30
-  	,	// c31a
-	// c31b
-      u32  // c32a
-    // c32b
-		Checksum @calculatedFrom(	// c34a
-	  // c34b
-    	""CRC16"" 
-	// c35
-      )// c36
-    , u8  // c38
-tail	// c39
-      , 	 // c40
-  } // c41
-")).
-Eval vm_compute in ("<<<M0>>>" ++ check (runes_of_ascii "packet body{ @tag( 0123456789 )repeatCount { // @lengthOf(
-i32
-roots	@calculatedFrom( ""it's""
-    )
-    // trailing space 
-    ,
-    char[]repeatCount @calculatedFrom(
-""packet"" ) `two words` // " ++ [128512]%N ++ runes_of_ascii " emoji
-,repeat u16 roots , match lengthOf as As //	t
-{ [ ""packet"" ,""" ++ [28040; 24687]%N ++ runes_of_ascii """,	255
-, 42 ,""\" ++ [233]%N ++ runes_of_ascii """ ] : x_y_z ,
-    } , } , trueish ,@tag( 65535 )
-@tag( 255  ) /// triple
-@tag(00) chars @calculatedFrom(""it's"" ) ,	match o as
-    // `tick` ""quote"" 'q'
-    roots {
-// " ++ [27880; 37322]%N ++ runes_of_ascii "
-// c
-""{,}""
-: options1 , """ ++ [28040; 24687]%N ++ runes_of_ascii """
-    :	lengthOf	, 00: pack  ,[ ""a\""b"" ] :
-    msg_type ,1 : i8i8
-, [ 10  , 3 ,"""" ] : falsey ,} , }
-root packet// `tick` ""quote"" 'q'
-Z9_ {repeat char[] // a // b
-Packet	, string chars@calculatedFrom( ""a\""b"" )
-`// not a comment`
-    // " ++ [128512]%N ++ runes_of_ascii " emoji
-    ,	}
-")).
-Eval vm_compute in ("<<<M663>>>" ++ check (runes_of_ascii "packet lengthOf {	@lengthOf( As ) Foo { repeat string
-f32a ,crc
-    @calculatedFrom( ""CRC32"")
-, } ,
-uint8x @calculatedFrom(
-""CRC32""
-) ,string charz	@calculatedFrom(""\" ++ [233]%N ++ runes_of_ascii """ ), @rightPad ( '\x00'
-// trailing space 
-//
-)	u16 int @lengthOf(
-    x )
-, tag string_ // @lengthOf(
-`" ++ [233]%N ++ runes_of_ascii "`  , MetaDataX @calculatedFrom( ""1"")//	t
-, @tag(
-    7  ) @calculatedFrom( """"
-)// " ++ [27880; 37322]%N ++ runes_of_ascii "
-@lengthOf(As)trueish	@lengthOf(// @lengthOf(
-Logon  )
-`two words`  ,}options {
-    Foo /// triple
-= char[
-    // trailing space 
-    10]}packet
-    // @lengthOf(
-    calculatedFrom { match charz as u128{ [
-/// triple
-// packet A { u8 x, }
-0123456789 ,
-""packet"" ,
-    /// triple
-    ""\n""
-    , 00 , 1 ,  ""1""
-,"""" ] :
-    //x
-    Foo} , }")).
-Eval vm_compute in ("<<<M4173>>>" ++ check (runes_of_ascii "
-
-  packet Logon 	 // c1
-    {	// c2
-  string// c3a
-  	// c3b
-
-  user // c4
-
-,// c5a
-
-  // c5b
-    } 
-    // c6
-    root packet Frame // c9a
-// c9b
-      { 
-
-    // c10
-    u8 
-
-// c11
-  K  ,// c13
-  match 
-    // c14
-  K 
-    // c15
-  as
-	    // c16
-
-Body	// c17a
-  // c17b
-
-	{ 1  // c19a
-	  // c19b
-	  :
-Logon // c21
-    ,	// c22a
-
-// c22b
-2:  
-      // c24
-	Logout 
-        // c25
-  , 
-}	,  
-  // c28
-  Tail, 
-}packet// c32
-    Logout 
-    // c33
-	{ 	 // c34
-    	u16// c35a
-// c35b
-reason// c36a
-  // c36b
-
-	,	// c37
-	}  // c38a
-  // c38b
-  packet // c39a
-// c39b
-	  Tail	// c40
-{
-
-u32
-        // c42
-    crc ,// c44a
-  // c44b
-} // c45a
-	// c45b
- 
-")).
-Eval vm_compute in ("<<<M3776>>>" ++ check (runes_of_ascii "packet rootA {
-}// " ++ [27880; 37322]%N ++ runes_of_ascii "
-
-packet MetaDataX {
-    @leftPad('0')
-    @calculatedFrom(""`tick`"")
-    pack @calculatedFrom(""1""),
-    f32a {
-        a1 {
-            lengthOf {
-                repeat uint8 charz `crlf
-                                line`,
-            },
-            match roots as Packet {
-                7 : Foo,
-                ""\" ++ [233]%N ++ runes_of_ascii """ : metadata,
-                ""a	b"" : trueish,
-                0123456789 : Z9_,
-                [4294967296, ""packet"", """", 3, """ ++ [233]%N ++ runes_of_ascii "t" ++ [233]%N ++ runes_of_ascii """] : pack,
-                10 : a1,
-            },
-            u16 u128 `" ++ [28040; 24687; 31867; 22411]%N ++ runes_of_ascii "`,
+packet Heartbeat {
+    i64 count,
+    zchar[1] Qty,
+    repeat InX29 {
+        InSeqno26 {
+            int64 f1,
+            char[5] Acct,
+            Order,
         },
+        repeat InSide285 {
+            repeat Order,
+            char[10] Px,
+            zchar[9] OrderId,
+        },
+        char[] venue,
+        Order,
     },
-    zchar[00] _x @calculatedFrom(""x y"") `doc`,
+    @rightPad('\x00')
+    char[4] clOrdID,
 }
 
-packet pack {
+root packet Party {
+    zchar[3] f1,
+    u32 clOrdID,
+    u32 Px @lengthOf(Body),
+    match clOrdID as Body {
+        [180, 64] : Heartbeat,
+        11 : Order,
+    },
+    u32 Side2 @calculatedFrom(""CRC32""),
 }")).
-Eval vm_compute in ("<<<M3543>>>" ++ check (runes_of_ascii "options {
-    LittleEndian = true;
-    FixedStringPadFromLeft = true;
-    FixedStringPadChar = '0';
-}
-packet Trade {
-    string clOrdID,
-    char[] Px,
-    u32 x,
-}
-packet Reject {
-    int32 Side2,
-    repeat char[3] clOrdID,
-    i32 tag7,
-}
-packet Leg {
-}
-root packet Quote {
-    string Side2,
-    string lastPx,
-    InSym58 {
-        int16 OrderId,
-        Reject,
-        i8 Qty,
-        i64 venue,
-        f32 Note,
-    },
-    char[] count,
-    zchar[9] price,
-    u16 Qty,
-    match Qty as Body {
-        69 : Leg,
-        48 : Trade,
-        51 : Reject,
-    },
-    u16 Acct @calculatedFrom(""CR\
-C32""),
-}
-")).
-Eval vm_compute in ("<<<M3487>>>" ++ check (runes_of_ascii "options { // c1a
-  // c1b
-FixedStringPadChar = // c3
-'0'
-    // c4
+Eval vm_compute in ("<<<M1478>>>" ++ check (runes_of_ascii "// top
+options // c0
+{
+    // c1
+LittleEndian // c2a
+  // c2b
+=
+    // c3
+true // c4
 ; // c5
-} packet
-    // c7
-Q { zchar[ // c10a
-  // c10b
-4 // c11
-] // c12a
-  // c12b
-z ,
-    // c14
-@rightPad // c15
-( // c16
-'\x00' )
-    // c18
-char[ // c19a
-  // c19b
-3 ] // c21
-n
-    // c22
-,
-    // c23
-char[
-    // c24
-5
+} // c6
+packet Logon // c8a
+  // c8b
+{ u8
+    // c10
+x
+    // c11
+, string
+    // c13
+user // c14a
+  // c14b
+, // c15a
+  // c15b
+} // c16a
+  // c16b
+packet // c17
+Logout // c18
+{ // c19
+u16 reason , // c22
+} // c23
+packet // c24a
+  // c24b
+Empty
     // c25
-] // c26a
-  // c26b
-d , // c28a
-  // c28b
-} // c29a
+{ // c26
+} root
+    // c28
+packet // c29a
   // c29b
-root // c30
-packet // c31
-R // c32
-{ // c33a
-  // c33b
-Q // c34a
-  // c34b
-, zchar[
+Frame
+    // c30
+{
+    // c31
+u16 // c32
+MsgType // c33
+, // c34
+@lengthOf( // c35
+Body
     // c36
-8
-    // c37
-] // c38
-top
-    // c39
-, // c40
-repeat // c41
-zchar[ // c42
-2 ] // c44
-zs // c45
-,
-    // c46
-} ")).
-Eval vm_compute in ("<<<M3982>>>" ++ check (runes_of_ascii "  packet chars  { 
-    // `tick` ""quote"" 'q'
-// `tick` ""quote"" 'q'
-	@lengthOf( trueish
-)
-char[10
-    ]
-	metadata  
-      //	t
-    // packet A { u8 x, }
-
-	@calculatedFrom(
-""x y""
-)  ,MetaDataX
-
-@lengthOf(
-    BodyLength ) 
-`u8 x,`	, 
-match 
-x 
-// trailing space 
-as 
-trueish
-
-{
-7  /// triple
-  : 
-matchKey
-,
-} , }
-root
-
-packet
-    len	{  // packet A { u8 x, }
-      x@lengthOf( Pad// `tick` ""quote"" 'q'
-  	)
-, asx	{pack  _x ,
-}, }
-
-MetaData	// `tick` ""quote"" 'q'
-pack { int8	//x
-    zchar
-    // @lengthOf(
-
-`tab	here`
-    ,}
-
-")).
-Eval vm_compute in ("<<<M442>>>" ++ check (runes_of_ascii "packet u8x {match BodyLength	as // c
-string_{ // c
-""\" ++ [233]%N ++ runes_of_ascii """	:
-zchar
-}
-    ,}  packet// trailing space 
-metadata
-    {// `tick` ""quote"" 'q'
-@tag( //
-0123456789	) /// triple
-@leftPad // `tick` ""quote"" 'q'
-( '\x00' )repeat	char[] trueish , repeat metadata {
-char[]
-    float `line1
-line2`
-, char[// " ++ [128512]%N ++ runes_of_ascii " emoji
-00] T,
-uint8x {repeat len string_
-    `doc` , }
-    // @lengthOf(
-    , options1 @lengthOf(
-    T
-)`say ""hi""` , } , @calculatedFrom(
-    ""CRC32"" //
-) uint16 BodyLength  @calculatedFrom( """ ++ [28040; 24687]%N ++ runes_of_ascii """ )
-, } //	t")).
-Eval vm_compute in ("<<<M3906>>>" ++ check (runes_of_ascii "packet u {
-    repeat zchar[0123456789] x `tab	here`,
-    @lengthOf(u8x)
-    @tag(3)
-    @tag(255)
-    options1 f32a `tab	here`,
-    string BodyLength `u8 x,`,
-    @calculatedFrom(""" ++ [28040; 24687]%N ++ runes_of_ascii """)
-    string u8x `" ++ [28040; 24687; 31867; 22411]%N ++ runes_of_ascii "`,
-    char[3] BodyLength,// " ++ [128512]%N ++ runes_of_ascii " emoji
-    match rootA as msg_type {
-        007 : MetaDataX,
-        // " ++ [27880; 37322]%N ++ runes_of_ascii "
-        [1, 255, ""CRC32"", 4294967296] : tag,
-    },
-    float64 a1 `doc`,
-    @calculatedFrom(""a	b"")
-    char[3] body,
-    _x,
-}
-
-root packet len {
-    repeat o rootA,
-}")).
-Eval vm_compute in ("<<<M857>>>" ++ check (runes_of_ascii "packet
-    charz// `tick` ""quote"" 'q'
-{
-@rightPad
-    ( '0' ) match leftPad as stringy
-{	007
-//	t
-// " ++ [128512]%N ++ runes_of_ascii " emoji
-:
-    a1 [ 42 , ""{,}"",""`tick`"" ,
-    10
-//	t
-/// triple
-]
-    :rootA , ""a	b"" :  Logon},// @lengthOf(
-} packet/// triple
-float  {	repeat pack { zchar[ 255
-    // `tick` ""quote"" 'q'
-    ]// `tick` ""quote"" 'q'
-repeatCount @lengthOf( uint8x ) `u8 x,` , }
-    ,
-    // " ++ [27880; 37322]%N ++ runes_of_ascii "
-    charz
-@lengthOf(
-    _x )
-`it's` ,// @lengthOf(
-} root packet  rootA
-    { //
-}
-")).
-Eval vm_compute in ("<<<M662>>>" ++ check (runes_of_ascii "packet
-    Foo {repeat u {char[ 0123456789 ]
-    string_
-@calculatedFrom(""it's"")
-    `" ++ [233]%N ++ runes_of_ascii "` , }, } options { Foo =
-    ""a\\"";
-msg_type= 4294967296 o = ""CRC32"" ;
-options1 = char[ // " ++ [128512]%N ++ runes_of_ascii " emoji
-7
-]; }
-    root packet	u{match
-    _x as
-rootA
-{
-007 :
-    f32a
-[ 007
-] :
-    u8x
-,[ 007
-,  ""packet""
-]
-    // @lengthOf(
-    :
-_x, [
-// packet A { u8 x, }
-// trailing space 
-007 ,  10 ]
-: i64_, }
-, int8 charz
-    // `tick` ""quote"" 'q'
-    `two words` ,}
-")).
-Eval vm_compute in ("<<<M1031>>>" ++ check (runes_of_ascii "options {x = ""it's""}MetaData falsey// trailing space 
-{
-char[0123456789 ] lengthOf,
-zchar[0123456789 ] stringy , falsey metadata
-, zchar[007 ]rootA `` , }MetaData
-trueish{  int8 x ,
-// packet A { u8 x, }
-// " ++ [128512]%N ++ runes_of_ascii " emoji
-f32 len , pack BodyLength `a\` ,
-}packet Pad
-{ @leftPad //	t
-(
-'0' ) u8x @calculatedFrom(""CRC32"" ) , }root packet _x { msg_type	{ lengthOf ,  uint32	packetx
-`` , },repeat int64
-zchar `line1
-line2`,body Header,
-}
-")).
-Eval vm_compute in ("<<<M253>>>" ++ check (runes_of_ascii "packet pack
-{ @rightPad (' ' ) A// c
-@calculatedFrom( ""a\\"" )
-// " ++ [128512]%N ++ runes_of_ascii " emoji
-// " ++ [128512]%N ++ runes_of_ascii " emoji
-`
-` , u8
-    f32a, zchar[007 ] rootA
-    `u8 x,`, repeat
-/// triple
-// a // b
-string u128 //
-`u8 x,`, @leftPad( ' ' ) char[ 1 ] repeatCount@calculatedFrom( //x
-""\n"" ) `doc`,
-    o
-,
-falsey
-    leftPad,@calculatedFrom(""a\""b"") @leftPad
-    ('0' )
-//
-// " ++ [27880; 37322]%N ++ runes_of_ascii "
-roots	{
+) // c37
 u8
-zchar @lengthOf(	Logon ) // trailing space 
-,
-// c
-//	t
-} , }")).
-Eval vm_compute in ("<<<M105>>>" ++ check (runes_of_ascii "
-MetaData u8x {
+    // c38
+BodyLen , // c40
+u8 // c41
+flags // c42
+, Logon // c44a
+  // c44b
+Body , u32 // c47a
+  // c47b
+trailer
+    // c48
+, // c49a
+  // c49b
+} // c50
+")).
+Eval vm_compute in ("<<<M1595>>>" ++ check (runes_of_ascii "//
+packet chars {
+    int16 int,
+    match calculatedFrom as zchar {
+        4294967296 : i8i8,
+        [""// no comment""] : stringy,
+        ""a\""b"" : u128,
+        007 : msg_type,
+        65535 : a1,
+        """" : u128,
+    },
+    Packet @lengthOf(f32a) `it's`,
+    int16 stringy `u8 x,`,
+    roots @lengthOf(trueish),
+    match charz as A {
+        10 : A,
+    },
+    string Header @calculatedFrom(""`tick`"") `doc`,
+}
+
+MetaData roots {
+    asx metadata,
+    int64 MetaDataX,
+    char[42] o `// not a comment`,
+    f32 packetx,
+    rootA As `it's`,
+    msg_type tag,
+}")).
+Eval vm_compute in ("<<<M167>>>" ++ check (runes_of_ascii "root
+packet i64_{
     packetx
-    len `crlf
-line`
-    ,char[
-255
-] calculatedFrom `" ++ [28040; 24687; 31867; 22411]%N ++ runes_of_ascii "` , float64  MetaDataX // `tick` ""quote"" 'q'
-`say ""hi""` ,BodyLength
-// `tick` ""quote"" 'q'
-// trailing space 
-charz
-`crlf
-line`// a // b
-,
-}packet lengthOf{
+// " ++ [128512]%N ++ runes_of_ascii " emoji
+// " ++ [27880; 37322]%N ++ runes_of_ascii "
+{	string zchar // c
+@calculatedFrom(
+""`tick`""
+    )
+    `
+`
+, zchar[1 ]  metadata	`doc`	, Foo
+    @calculatedFrom(
+""CRC32""
+    )
+    ,}
     //	t
-    @tag( 4294967296 ) uint8x @calculatedFrom(
-    ""\n"" ) `" ++ [28040; 24687; 31867; 22411]%N ++ runes_of_ascii "` ,
-    char calculatedFrom	@calculatedFrom(
-""" ++ [28040; 24687]%N ++ runes_of_ascii """) // " ++ [27880; 37322]%N ++ runes_of_ascii "
-`two words` , }
+    ,char[]roots `crlf
+line`
+//	t
+//x
+, @calculatedFrom(""it's"" )  char
+    rootA
+    ,
+@tag( 7 )
+    charz o //x
+`it's`
+, // a // b
+char[ 007] msg_type@lengthOf(x_y_z )
+,
+    repeat //	t
+zchar[ 007 ]repeatCount `say ""hi""` , match i64_ as rootA
+{ [""abc"" ] :T }
+, repeat chars ,  }
+")).
+Eval vm_compute in ("<<<M1348>>>" ++ check (runes_of_ascii "// top
+packet
+    // c0
+B // c1
+{
+    // c2
+u8 a // c4a
+  // c4b
+,
+    // c5
+} // c6a
+  // c6b
+root packet // c8
+P // c9
+{
+    // c10
+u8 K
+    // c12
+, // c13
+u8 // c14a
+  // c14b
+L // c15a
+  // c15b
+@lengthOf( // c16a
+  // c16b
+Body
+    // c17
+)
+    // c18
+, // c19
+match // c20a
+  // c20b
+K // c21a
+  // c21b
+as
+    // c22
+Body // c23a
+  // c23b
+{ // c24a
+  // c24b
+1 : // c26
+B , }
+    // c29
+, // c30
+} // c31a
+  // c31b
 ")).
 Eval vm_compute in ("<<<M22>>>" ++ check (runes_of_ascii "packet  Pad{
 @leftPad ( '0' ) @calculatedFrom( ""`tick`""
@@ -1454,952 +642,511 @@ char[
 // trailing space 
 ,
 }")).
-Eval vm_compute in ("<<<M1048>>>" ++ check (runes_of_ascii "
-packet i64_	{
-    @rightPad(	'\x00' ) char[] zchar, repeat string stringy ,repeat stringy // @lengthOf(
-`{ , }`  , MetaDataX metadata , char[
-    42 // c
-]calculatedFrom `doc`
-    ,zchar[ 4294967296	] repeatCount , }	MetaData msg_type { } packet
-body
-{ zchar[ 00] string_ @calculatedFrom( ""\" ++ [233]%N ++ runes_of_ascii """
-    ) `two words`
-, string_ @lengthOf( A ) `line1
-line2`
-,
-    }")).
-Eval vm_compute in ("<<<M3942>>>" ++ check (runes_of_ascii "root	packet  x 
-{ string packetx 
+Eval vm_compute in ("<<<M58>>>" ++ check (runes_of_ascii "
+MetaData// `tick` ""quote"" 'q'
+asx
+{
+    // packet A { u8 x, }
+    char
 // @lengthOf(
-  `{ , }`
-
-, char stringy
-`// not a comment` , match 
-charz
-    as u128
-{
-""" ++ [128512]%N ++ runes_of_ascii """: _x ,
-
-0 :
-	options1 	 // packet A { u8 x, }
-  42 :
-
-    trueish ,[ 
-	    // @lengthOf(
-  // `tick` ""quote"" 'q'
-    ""it's""  ,	00 ,""" ++ [28040; 24687]%N ++ runes_of_ascii """,	""\n""
-// trailing space 
-  ,
-
-255 , 00  ]
-: 
-lengthOf
-, 1 :len	,
-    },
-    } ")).
-Eval vm_compute in ("<<<M3745>>>" ++ check (runes_of_ascii "packet A {
-    // c2
-    u8 a,
-    // c5
-}
-
-// c6
-packet B {
-    // c9
-    u16 b,// c12
-}
-
-// c13
-root packet P {
-    u8 K1,// c20a
-    // c20b
-    u8 K2,// c23a
-    // c23b
-    match K1 as M1 {
-        1 : A,
-        // c32a
-        // c32b
-    },// c34
-    match K2 as M2 {
-        // c39
-        1 : B,
-        // c43
-    },
-}")).
-Eval vm_compute in ("<<<M1312>>>" ++ check (runes_of_ascii "packet repeatCount {@tag(  7 )int16 crc, zchar[007]  a1 @lengthOf( falsey) , repeat char[]	Packet, o , } packet crc
-{ @rightPad ('\x00' ) @rightPad
-('0'	) i64 A
-    , match // a // b
-stringy as o {
-    4294967296: chars , }	, body int
-    //
-    ,
-    // `tick` ""quote"" 'q'
-    @calculatedFrom( ""\n""
-)
-    Packet ,  }
-")).
-Eval vm_compute in ("<<<M1570>>>" ++ check (runes_of_ascii "root packet Foo // " ++ [128512]%N ++ runes_of_ascii " emoji
-{ } options {
-    // a // b
-    tag // `tick` ""quote"" 'q'
-= //	t
-""""
-    ; u8x = zchar[0  ] }
-MetaData
-    int {zchar[ 10]
-lengthOf	`` , i64 u8x`// not a comment` ,MetaDataX pack// `tick` ""quote"" 'q'
-`crlf
-line` `crlf
-line`
-, Logon charz `crlf
-line`
-    ,
-    // a // b
-    }
-")).
-Eval vm_compute in ("<<<M1462>>>" ++ check (runes_of_ascii "root packet Foo // " ++ [128512]%N ++ runes_of_ascii " emoji
-{ } options {
-    // a // b
-    tag // `tick` ""quote"" 'q'
-= //	t
-""""
-    char[] u8x = zchar[0  ] }
-MetaData
-    int {zchar[ 10]
-lengthOf	`` , i64 u8x`// not a comment` ,MetaDataX pack// `tick` ""quote"" 'q'
-`crlf
-line`
-, Logon charz `crlf
-line`
-    ,
-    // a // b
-    }
-")).
-Eval vm_compute in ("<<<M1425>>>" ++ check (runes_of_ascii "root packet Foo // " ++ [128512]%N ++ runes_of_ascii " emoji
-{ { } options {
-    // a // b
-    tag // `tick` ""quote"" 'q'
-= //	t
-""""
-    ; u8x = zchar[0  ] }
-MetaData
-    int {zchar[ 10]
-lengthOf	`` , i64 u8x`// not a comment` ,MetaDataX pack// `tick` ""quote"" 'q'
-`crlf
-line`
-, Logon charz `crlf
-line`
-    ,
-    // a // b
-    }
-")).
-Eval vm_compute in ("<<<M1609>>>" ++ check (runes_of_ascii "root packet Foo // " ++ [128512]%N ++ runes_of_ascii " emoji
-{ } options {
-    // a // b
-    tag // `tick` ""quote"" 'q'
-= //	t
-""""
-    ; u8x = zchar[0  ] }
-MetaData
-    int {zchar[ 10]
-lengthOf	`` , i64 u8x`// not a comment` ,MetaDataX pack// `tick` ""quote"" 'q'
-`crlf
-line`
-, Logon charz `crlf
-line`
-   % ,
-    // a // b
-    }
-")).
-Eval vm_compute in ("<<<M1536>>>" ++ check (runes_of_ascii "root packet Foo // " ++ [128512]%N ++ runes_of_ascii " emoji
-{ } options {
-    // a // b
-    tag // `tick` ""quote"" 'q'
-= //	t
-""""
-    ; u8x = zchar[0  ] }
-MetaData
-    int {zchar[ 10]
-lengthOf	`` i64 , u8x`// not a comment` ,MetaDataX pack// `tick` ""quote"" 'q'
-`crlf
-line`
-, Logon charz `crlf
-line`
-    ,
-    // a // b
-    }
-")).
-Eval vm_compute in ("<<<M1534>>>" ++ check (runes_of_ascii "root packet Foo // " ++ [128512]%N ++ runes_of_ascii " emoji
-{ } options {
-    // a // b
-    tag // `tick` ""quote"" 'q'
-= //	t
-""""
-    ; u8x = zchar[0  ] }
-MetaData
-    int {zchar[ 10]
-lengthOf	``  i64 u8x`// not a comment` ,MetaDataX pack// `tick` ""quote"" 'q'
-`crlf
-line`
-, Logon charz `crlf
-line`
-    ,
-    // a // b
-    }
-")).
-Eval vm_compute in ("<<<M1562>>>" ++ check (runes_of_ascii "root packet Foo // " ++ [128512]%N ++ runes_of_ascii " emoji
-{ } options {
-    // a // b
-    tag // `tick` ""quote"" 'q'
-= //	t
-""""
-    ; u8x = zchar[0  ] }
-MetaData
-    int {zchar[ 10]
-lengthOf	`` , i64 u8x`// not a comment` ,@tag( pack// `tick` ""quote"" 'q'
-`crlf
-line`
-, Logon charz `crlf
-line`
-    ,
-    // a // b
-    }
-")).
-Eval vm_compute in ("<<<M773>>>" ++ check (runes_of_ascii "
-packet u8x { int32
-u , @leftPad
-    ( '\x00' )	int16
+//x
+Z9_ , } options{ Pad
+= '0' /// triple
+} options { trueish = ""it's"" matchKey =
+    false
+    ; T = float32 ;
     /// triple
-    leftPad
-    ,@lengthOf(
-    stringy ) uint32 BodyLength@calculatedFrom(
-""" ++ [28040; 24687]%N ++ runes_of_ascii """// a // b
-)
-    `say ""hi""` ,	} root packet  msg_type {float64  Foo ,string repeatCount
-    ,} root packet
-    repeatCount {
-    }")).
-Eval vm_compute in ("<<<M522>>>" ++ check (runes_of_ascii "packet As{ // packet A { u8 x, }
-repeatCount @lengthOf( Pad )`" ++ [28040; 24687; 31867; 22411]%N ++ runes_of_ascii "`, // c
-}MetaData uint8x { char[
-    3 ] o`say ""hi""`, uint16 A, leftPad
-    matchKey ,char[] As `line1
-line2`	, u32 string_ ,/// triple
-metadata len , } packet
-    options1 {metadata	options1// " ++ [27880; 37322]%N ++ runes_of_ascii "
-,
-}
-")).
-Eval vm_compute in ("<<<M1145>>>" ++ check (runes_of_ascii "
-packet Pad
-{ @lengthOf(
-    // c
-    x_y_z) @leftPad (
-    ' ' )	@tag(65535
-)
-roots uint8x// @lengthOf(
-, trueish
-    { char[]float @calculatedFrom( ""it's"" )
-, a1 u128 , }
-,@tag( 42
-) repeat float `" ++ [28040; 24687; 31867; 22411]%N ++ runes_of_ascii "`
+    len= ' ' ; string_
+=
+    i16 ; } root// `tick` ""quote"" 'q'
+packet f32a{char[]
     // trailing space 
-    ,// trailing space 
-}
-")).
-Eval vm_compute in ("<<<M537>>>" ++ check (runes_of_ascii "MetaData charz {}// " ++ [27880; 37322]%N ++ runes_of_ascii "
-root packet matchKey{o  @calculatedFrom( ""a\""b"") ,zchar[ 10
-]i8i8 @calculatedFrom( ""1"" )
-`tab	here` ,
-match crc as rootA { 255 : Z9_ , 42 : // c
-lengthOf
-,
-[ 0 ,007
-    ] : Logon  ""\n"" : T 0123456789 :  float  ,
-    } , }
-")).
-Eval vm_compute in ("<<<M1578>>>" ++ check (runes_of_ascii "root packet Foo // " ++ [128512]%N ++ runes_of_ascii " emoji
-{ } options {
-    // a // b
-    tag // `tick` ""quote"" 'q'
-= //	t
-""""
-    ; u8x = zchar[0  ] }
-MetaData
-    int {zchar[ 10]
-lengthOf	`` , i64 u8x`// not a comment` ,MetaDataX pack// `tick` ""quote"" 'q'
-`crlf
-line`")).
-Eval vm_compute in ("<<<M458>>>" ++ check (runes_of_ascii "// packet A { u8 x, }
-options { matchKey
-    =  char[] x = char[] // " ++ [27880; 37322]%N ++ runes_of_ascii "
-} packet i64_{ repeat pack
-    `say ""hi""`, i16 calculatedFrom `u8 x,`,} MetaData calculatedFrom
-{ // trailing space 
-Logon Packet , } // `tick` ""quote"" 'q'")).
-Eval vm_compute in ("<<<M2231>>>" ++ check (runes_of_ascii "MetaData Packet { }packet packet	asx  { @lengthOf( asx) falsey`crlf
-line`
-,
-    }
-    packet x	{uint32// @lengthOf(
-rootA	,u32 options1 `say ""hi""` , @tag( 7
-    )// packet A { u8 x, }
-msg_type @lengthOf(
-stringy	)	, }
-
-")).
-Eval vm_compute in ("<<<M1059>>>" ++ check (runes_of_ascii "// " ++ [128512]%N ++ runes_of_ascii " emoji
-MetaData //x
-Foo
-    { }  MetaData
-x {
-}MetaData zchar
-{ options1	f32a , int32 stringy ,
-    string
-    msg_type
-`
-` ,string T , a1 trueish `{ , }`
-// packet A { u8 x, }
-/// triple
-, f32 BodyLength
+    u8x
     , }")).
-Eval vm_compute in ("<<<M2385>>>" ++ check (runes_of_ascii "MetaData Packet { }packet	asx  { @lengthOf( asx) falsey`crlf
-line`
-,
-    }
-    packet x	{uint32// @lengthOf(
-rootA	,u32 options1 `say ""hi""` , @tag( 7
-    )// packet A { u8 x, }
-msg_type @lengthOf(
-stringy	)	@, }
-
-")).
-Eval vm_compute in ("<<<M2332>>>" ++ check (runes_of_ascii "MetaData Packet { }packet	asx  { @lengthOf( asx) falsey`crlf
-line`
-,
-    }
-    packet x	{uint32// @lengthOf(
-rootA	,u32 options1 `say ""hi""` , 7 @tag(
-    )// packet A { u8 x, }
-msg_type @lengthOf(
-stringy	)	, }
-
-")).
-Eval vm_compute in ("<<<M4421>>>" ++ check (runes_of_ascii "
-options
-	{// `tick` ""quote"" 'q'
-    len // `tick` ""quote"" 'q'
-	  = """ ++ [28040; 24687]%N ++ runes_of_ascii """
-	;  options1	= // " ++ [27880; 37322]%N ++ runes_of_ascii "
-int32
-
-    zchar
-=""1"" ;float = 
-true tag = """ ++ [28040; 24687]%N ++ runes_of_ascii """  ;
-} MetaData
-    u128{msg_type	i8i8 `doc` , o
-
-    body  ,	}
-")).
-Eval vm_compute in ("<<<M3997>>>" ++ check (runes_of_ascii "MetaData MetaDataX {
-    stringy chars,
-    Z9_ Foo,
-}
-
-options {
-}// " ++ [27880; 37322]%N ++ runes_of_ascii "
-
-packet x_y_z {
-}
-
-packet stringy {
-    uint64 packetx,
-    o,
-    metadata MetaDataX,
-    repeat float32 len,
-    i64_,
-}
-
-options {
+Eval vm_compute in ("<<<M1655>>>" ++ check (runes_of_ascii "packet body {
+    @rightPad('0')
+    Packet a1,
+    asx,
+    repeatCount {
+        // trailing space 
+        repeat int64 falsey,
+    },
+    @rightPad('0')
+    match int as T {
+        4294967296 : _x,
+        00 : string_,
+        [""x y""] : stringy,
+    },// packet A { u8 x, }
+    uint32 x_y_z,
 }")).
-Eval vm_compute in ("<<<M3955>>>" ++ check (runes_of_ascii "
-root
+Eval vm_compute in ("<<<M1411>>>" ++ check (runes_of_ascii "  packet 
+P1{
 
-    packet 
-msg_type 
-    // " ++ [27880; 37322]%N ++ runes_of_ascii "
-//	t
-		{string
-    lengthOf
+    u8
 
-    `a\` , @tag(
-    65535
+a 
+,}	packet
+P2 {
+    P1	,} packet
+P3 {
+P2
+,
+P1	,}  packet
+    P4
 
-)
-	rootA
+    {
+repeat P3
+,	P2 ,}
+root	packet P5
 
-calculatedFrom	, char[] crc
-`{ , }`
-, zchar[
-    // c
-		//	t
-    65535 
-]  msg_type,	}
-")).
-Eval vm_compute in ("<<<M155>>>" ++ check (runes_of_ascii "packet pack
-    { @calculatedFrom(
-""CRC32""
-) i8i8 { MetaDataX @lengthOf( x
-//x
-// packet A { u8 x, }
-), char As @lengthOf( len	) ,
-// " ++ [128512]%N ++ runes_of_ascii " emoji
-//x
-chars metadata `say ""hi""` , char[ 0] int ,}, }
-")).
-Eval vm_compute in ("<<<M4462>>>" ++ check (runes_of_ascii "// " ++ [128512]%N ++ runes_of_ascii " emoji
-MetaData Foo {
-}
+{ 
+P4,
 
-MetaData x {
-}
+    P3
 
-MetaData zchar {
-    options1 f32a,
-    int32 stringy,
-    string msg_type `
-    `,
-    string T,
-    a1 trueish `{ , }`,
-    f32 BodyLength,
-}")).
-Eval vm_compute in ("<<<M3574>>>" ++ check (runes_of_ascii "packet 
-BodyLength
-
-{
-repeat u128 charz  ,
-i64
-
-    i64_
-@lengthOf( asx  ) ,repeat
-    i64_ {repeat int
-    `u8 x,`
-,	//	t
-  	}
-    , repeat
-	float32 pack
-    `" ++ [233]%N ++ runes_of_ascii "`
+,P1 ,	u8  K
 
     ,
-    }
-")).
-Eval vm_compute in ("<<<M1080>>>" ++ check (runes_of_ascii "packet
-// `tick` ""quote"" 'q'
-// " ++ [27880; 37322]%N ++ runes_of_ascii "
-len
-{
-match x as  pack { // @lengthOf(
-3 : MetaDataX 255
-    :Foo , 00
+    match  K	as  Body	{
+
+4 :	P4
+
+,	3
+:P3
+
+    , 
+2 : P2
+
+,
+    1
 :
-o
-}, @calculatedFrom(  ""CRC32"" ) u128@lengthOf(packetx	) ,
-}")).
-Eval vm_compute in ("<<<M3659>>>" ++ check (runes_of_ascii "options {
-    len = true;
-    MetaDataX = zchar[00]
-    lengthOf = '0';
-    Pad = ""packet"";
-    x_y_z = ""a\""b"";
-}
 
-packet calculatedFrom {
-    repeat matchKey Foo,
-}")).
-Eval vm_compute in ("<<<M1104>>>" ++ check (runes_of_ascii "packet
-As {u128 MetaDataX , char[
-3
-] falsey ,  } options { falsey
-    /// triple
-    = ""it's""	;
-}MetaData a1
-{u8x A , matchKey _x `" ++ [28040; 24687; 31867; 22411]%N ++ runes_of_ascii "` ,
-    string T
-, }")).
-Eval vm_compute in ("<<<M4493>>>" ++ check (runes_of_ascii "
-options{ 
-charz
-= 
-00
-;
-leftPad
-    =
+P1 ,
 
-zchar[0123456789
-
-]
-; 
-//x
-  	/// triple
-} options	{
-falsey
-    =
-u32;
-}	root
-
-    packet
-
-float
-
+    } ,} ")).
+Eval vm_compute in ("<<<M82>>>" ++ check (runes_of_ascii "packet
+x { char matchKey
+    @lengthOf( x_y_z ) //
+, }packet	trueish  {
+    @tag( 255
+    )
+char calculatedFrom @lengthOf( Header ) , }
+    MetaData options1
+    // trailing space 
+    { }
+packet MetaDataX {
+    }
+    packet trueish{	}")).
+Eval vm_compute in ("<<<M472>>>" ++ check (runes_of_ascii "options
 {
+matchKey = 42/// triple
+x='0' ;
+// packet A { u8 x, }
+//
+charz
+=
+// packet A { u8 x, }
+// trailing space 
+true  ; } MetaData BodyLength
+{
+uint8 uint8
+pack,zchar[ 1]float ,  float32 x_y_z `` ,u32
+_x,i16 body  , }
+")).
+Eval vm_compute in ("<<<M394>>>" ++ check (runes_of_ascii "options
+u64
+matchKey = 42/// triple
+x='0' ;
+// packet A { u8 x, }
+//
+charz
+=
+// packet A { u8 x, }
+// trailing space 
+true  ; } MetaData BodyLength
+{
+uint8
+pack,zchar[ 1]float ,  float32 x_y_z `` ,u32
+_x,i16 body  , }
+")).
+Eval vm_compute in ("<<<M504>>>" ++ check (runes_of_ascii "options
+{
+matchKey = 42/// triple
+x='0' ;
+// packet A { u8 x, }
+//
+charz
+=
+// packet A { u8 x, }
+// trailing space 
+true  ; } MetaData BodyLength
+{
+uint8
+pack,zchar[ 1]string ,  float32 x_y_z `` ,u32
+_x,i16 body  , }
+")).
+Eval vm_compute in ("<<<M479>>>" ++ check (runes_of_ascii "options
+{
+matchKey = 42/// triple
+x='0' ;
+// packet A { u8 x, }
+//
+charz
+=
+// packet A { u8 x, }
+// trailing space 
+true  ; } MetaData BodyLength
+{
+uint8
+true,zchar[ 1]float ,  float32 x_y_z `` ,u32
+_x,i16 body  , }
+")).
+Eval vm_compute in ("<<<M390>>>" ++ check (runes_of_ascii "int16
+{
+matchKey = 42/// triple
+x='0' ;
+// packet A { u8 x, }
+//
+charz
+=
+// packet A { u8 x, }
+// trailing space 
+true  ; } MetaData BodyLength
+{
+uint8
+pack,zchar[ 1]float ,  float32 x_y_z `` ,u32
+_x,i16 body  , }
+")).
+Eval vm_compute in ("<<<M387>>>" ++ check (runes_of_ascii "
+{
+matchKey = 42/// triple
+x='0' ;
+// packet A { u8 x, }
+//
+charz
+=
+// packet A { u8 x, }
+// trailing space 
+true  ; } MetaData BodyLength
+{
+uint8
+pack,zchar[ 1]float ,  float32 x_y_z `` ,u32
+_x,i16 body  , }
+")).
+Eval vm_compute in ("<<<M336>>>" ++ check (runes_of_ascii "packet
+    a1//	t
+{ @tag( 10 )	match x
+    as float { 007
+: falsey
+    , }	,}
+options
+    { uint8x  = false ; } MetaData
+    rootA
+    {
+//	t
+// packet A { u8 x, }
+u32 i64_	,zchar[ 42] zchar, }
+")).
+Eval vm_compute in ("<<<M662>>>" ++ check (runes_of_ascii "// c
+packet i64_ {	char[] calculatedFrom , } packet
+trueish  {@calculatedFrom(
+""a\\"" ) o { i32 falsey@lengthOf( uint8x ),
+} , } // `tick` ""quote"" 'q'
+options {// c
+Z9_ Z9_ = ' '//
 }
 ")).
-Eval vm_compute in ("<<<M4465>>>" ++ check (runes_of_ascii "
-packet
-    calculatedFrom
+Eval vm_compute in ("<<<M717>>>" ++ check (runes_of_ascii "// c
+i64_ packet {	char[] calculatedFrom , } packet
+trueish  {@calculatedFrom(
+""a\\"" ) o { i32 falsey@lengthOf( uint8x ),
+} , } // `tick` ""quote"" 'q'
+options {// c
+Z9_ = ' '//
+}
+")).
+Eval vm_compute in ("<<<M681>>>" ++ check (runes_of_ascii "// c
+packet i64_ {	char[] calculatedFrom , } packet
+  {@calculatedFrom(
+""a\\"" ) o { i32 falsey@lengthOf( uint8x ),
+} , } // `tick` ""quote"" 'q'
+options {// c
+Z9_ = ' '//
+}
+")).
+Eval vm_compute in ("<<<M1870>>>" ++ check (runes_of_ascii "packet A {
+    match k as n {
+        [
+            1, ""bb"", 007, ""d"", 5,
+            ""f"", 7, ""h"", 9, ""j"",
+            11
+        ] : B,
+        2 : C,
+    },
+}")).
+Eval vm_compute in ("<<<M1746>>>" ++ check (runes_of_ascii "  // top
+    	root  
+  // c0
+    	packet
+	P
+    {  
+  // c3
+    char 	 // c4
 
-    {  @tag( 
-4294967296
+  c  // c5
+, 
+        // c6
+u8	// c7
+    x 	 // c8
+  ,	// c9
+}// c10")).
+Eval vm_compute in ("<<<M1333>>>" ++ check (runes_of_ascii "// top
+root // c0
+packet P
+    // c2
+{ // c3
+repeat
+    // c4
+char cs
+    // c6
+, u8 x // c9a
+  // c9b
+, // c10a
+  // c10b
+}
+    // c11
+")).
+Eval vm_compute in ("<<<M1759>>>" ++ check (runes_of_ascii "packet A {
 
-) 	 // c
-u 
-msg_type 
+match k as	n	{[""a"",  22
+	,
+
+    ""c c"" , 4 ,
+""e""	, 
+66
+    , ""g"",	8
 ,
-char[
-
-3 ] crc  @lengthOf(
-len
-
-    ) `u8 x,`
+	""i""
 
     ,
-    } ")).
-Eval vm_compute in ("<<<M4163>>>" ++ check (runes_of_ascii "
+
+10
+, ""k""
+]  : B 
+,2: C} ,}
+")).
+Eval vm_compute in ("<<<M1350>>>" ++ check (runes_of_ascii "packet B {
+    u8 a,
+}
+root packet P {
+    u8 K,
+    u64 L @lengthOf(Body),
+    match K as Body {
+        1 : B,
+    },
+}
+")).
+Eval vm_compute in ("<<<M650>>>" ++ check (runes_of_ascii "MetaData
+    // trailing space 
+    matchKey
+{ u64 chars // a // b
+,char[] lengthOf `// not a comment`
+    , //	t
+~ }")).
+Eval vm_compute in ("<<<M613>>>" ++ check (runes_of_ascii "MetaData
+    // trailing space 
+    matchKey
+{ u64 chars // a // b
+char[], lengthOf `// not a comment`
+    , //	t
+}")).
+Eval vm_compute in ("<<<M1775>>>" ++ check (runes_of_ascii "  packet
+	A
+{
+
+match k 
+as  n
+
+    { [1
+,
+    ""bb""	,	007	,
+""d""
+	,
+
+    5
+,
+""f"",
+
+7] :
+B
+    2
+:	C
+	}
+	,
+
+}
+")).
+Eval vm_compute in ("<<<M914>>>" ++ check (runes_of_ascii "packet A {
+  match k as n {
+    [""a"", ""bb"", 007, ""d"", ""e"", 66, ""g"", ""h"", 9, ""j"", ""k"", 12] : B
+    2 : C
+  },
+}")).
+Eval vm_compute in ("<<<M948>>>" ++ check (runes_of_ascii "packet A {
+    u16 len @lengthOf(body) `x
+`,
+    u32 crc @calculatedFrom(""CRC32"") `x
+`,
+    string body,
+}")).
+Eval vm_compute in ("<<<M1261>>>" ++ check (runes_of_ascii "packet calculatedFrom { @tag( 4294967296 // c
+) u msg_type , char[ 3 ] crc @lengthOf( len ) `u8 x,` , }")).
+Eval vm_compute in ("<<<M1946>>>" ++ check (runes_of_ascii "
 
   packet
+o
 
-    calculatedFrom
-	{
-@tag(  4294967296
-
-) 
-u
-
-    msg_type , char[  3
-
-    ]
-crc
-@lengthOf(
-len )
-`u8 x,`  ,
-}	// c
-")).
-Eval vm_compute in ("<<<M309>>>" ++ check (runes_of_ascii "options {
-Pad = // " ++ [27880; 37322]%N ++ runes_of_ascii "
-3 ; float =
-false
-    // packet A { u8 x, }
-    ;
-Z9_ =""packet""	chars=
-""a\""b"" float=
-""a\\""} MetaData zchar { } 	 ")).
-Eval vm_compute in ("<<<M3604>>>" ++ check (runes_of_ascii "packet
-    calculatedFrom
-{
-    @tag( 
-    // c
-
-	4294967296
+{@tag(
+42
     )
-	u	msg_type	,char[
-	3 ]crc
-	@lengthOf(
-len
-    )
-`u8 x,` 
-,	}
-
-")).
-Eval vm_compute in ("<<<M3435>>>" ++ check (runes_of_ascii "
-packet	B
-{
-	u8 a	, 
-}
-
-    root
-
-packet P {  u8  K , 
-u8
-    L @lengthOf(
-Body)
-
-,	match
-K as Body
-{  1
-
-    :B,  }	,
-	} ")).
-Eval vm_compute in ("<<<M1699>>>" ++ check (runes_of_ascii "root packet /// triple
-rootA {	i32
-MetaDataX@calculatedFrom( ""CRC32"" ) `line1
-line2` , } MetaData BodyLength {
-rootA
-u8, } // c")).
-Eval vm_compute in ("<<<M1628>>>" ++ check (runes_of_ascii "} packet /// triple
-rootA {	i32
-MetaDataX@calculatedFrom( ""CRC32"" ) `line1
-line2` , } MetaData BodyLength {
-u8
-rootA, } // c")).
-Eval vm_compute in ("<<<M723>>>" ++ check (runes_of_ascii "packet
-    // @lengthOf(
-    roots { u32 calculatedFrom @calculatedFrom(
-""\" ++ [233]%N ++ runes_of_ascii """ // @lengthOf(
-) // `tick` ""quote"" 'q'
-, }
-
-")).
-Eval vm_compute in ("<<<M1838>>>" ++ check (runes_of_ascii "packet
-    Pad // a // b
-{ i8i8 @calculatedFrom( ""a	b"") `u8 x,` ,
-} options true float// " ++ [128512]%N ++ runes_of_ascii " emoji
-= f64 i64_
-=//	t
-00 }
-")).
-Eval vm_compute in ("<<<M1826>>>" ++ check (runes_of_ascii "packet
-    Pad // a // b
-{ i8i8 @calculatedFrom( ""a	b"") `u8 x,` ,
-} } options{ float// " ++ [128512]%N ++ runes_of_ascii " emoji
-= f64 i64_
-=//	t
-00 }
-")).
-Eval vm_compute in ("<<<M3970>>>" ++ check (runes_of_ascii "MetaData string_ {
-    char[0123456789] Pad,
-    u128 Header ``,
-    Foo u8x,
-    leftPad trueish,
-    char[1] i64_,
-}")).
-Eval vm_compute in ("<<<M3023>>>" ++ check (runes_of_ascii "packet A {
-    Inner {
-        u8 x `a
-    b
-  c`,
-        Deep {
-            u8 y `a
-    b
-  c`,
-        },
-    },
-}")).
-Eval vm_compute in ("<<<M3052>>>" ++ check (runes_of_ascii "packet A {
-    match k as n {
-        ""x\
-y"" : B,
-        [""x\
-y"", 1] : C,
-        [1,2,3,4,5,""x\
-y""] : D,
-    },
-}")).
-Eval vm_compute in ("<<<M1840>>>" ++ check (runes_of_ascii "packet
-    Pad // a // b
-{ i8i8 @calculatedFrom( ""a	b"") `u8 x,` ,
-} options{ // " ++ [128512]%N ++ runes_of_ascii " emoji
-= f64 i64_
-=//	t
-00 }
-")).
-Eval vm_compute in ("<<<M48>>>" ++ check (runes_of_ascii "//x
-packet uint8x { u8 // packet A { u8 x, }
-roots `a\`	, match len
-as charz{
-[ 3 , """" ] : Z9_
-,
-    } , }
-")).
-Eval vm_compute in ("<<<M2966>>>" ++ check (runes_of_ascii "packet A {
-  match k as n {
-    [""a"", ""bb"", ""c c"", ""d"", ""e"", ""f"", ""g"", ""h"", ""i"", ""j""] : B
-    2 : C
-  },
-}")).
-Eval vm_compute in ("<<<M4396>>>" ++ check (runes_of_ascii "packet o {
-    @tag(42)
-    repeat x {
-        // c
-        char[0123456789] i64_,
-    },
-}
-
-options {
-}")).
-Eval vm_compute in ("<<<M3362>>>" ++ check (runes_of_ascii "packet calculatedFrom { @tag( 4294967296 ) u msg_type , char[ 3 ]
+    repeat 
 // c
-crc @lengthOf( len ) `u8 x,` , }")).
-Eval vm_compute in ("<<<M2980>>>" ++ check (runes_of_ascii "packet A {
-  match k as n {
-    [1, ""bb"", 007, ""d"", 5, ""f"", 7, ""h"", 9, ""j"", 11] : B,
-    2 : C
-  },
-}")).
-Eval vm_compute in ("<<<M572>>>" ++ check (runes_of_ascii "MetaData //	t
-calculatedFrom {	uint32 trueish`crlf
-line`
-, i32 roots `doc`
-,float64 lengthOf
-,}")).
-Eval vm_compute in ("<<<M393>>>" ++ check (runes_of_ascii "MetaData len {
-i64
-tag `// not a comment`
-, int32 i8i8
+    x
+	{ char[
+0123456789 ] i64_
 ,
-crc
-    i8i8 `{ , }` ,} // @lengthOf(")).
-Eval vm_compute in ("<<<M3238>>>" ++ check (runes_of_ascii "packet Logon { @tag( 42 ) @rightPad ( ' ' ) @leftPad ( // c
-) repeat trueish { string T , } , }")).
-Eval vm_compute in ("<<<M2971>>>" ++ check (runes_of_ascii "packet A {
-  match k as n {
-    [1, 22, ""c c"", 4, 5, ""f"", 7, 8, ""i"", 10] : B,
-    2 : C
-  },
-}")).
-Eval vm_compute in ("<<<M2299>>>" ++ check (runes_of_ascii "MetaData Packet { }packet	asx  { @lengthOf( asx) falsey`crlf
-line`
-,
-    }
-    packet x	{")).
-Eval vm_compute in ("<<<M2959>>>" ++ check (runes_of_ascii "packet A {
-  match k as n {
-    [1, 22, ""c c"", 4, 5, ""f"", 7, 8, ""i""] : B
-    2 : C
-  },
-}")).
-Eval vm_compute in ("<<<M3021>>>" ++ check (runes_of_ascii "packet A {
-    B b `a
-    b
-  c`,
-    B `a
-    b
-  c`,
-    repeat B bs `a
-    b
-  c`,
-}")).
-Eval vm_compute in ("<<<M4391>>>" ++ check (runes_of_ascii "
-
-  // c
-MetaData
-
-    _x
-
-{	zchar[ 4294967296	]
-    lengthOf`// not a comment`,
+    },
 }
-")).
-Eval vm_compute in ("<<<M2001>>>" ++ check (runes_of_ascii "root
-packet crc
-    { f32a @calculatedFrom( """ ++ [233]%N ++ runes_of_ascii "t" ++ [233]%N ++ runes_of_ascii """ )
-    `say ""hi""` lengthOf `` ,  }")).
-Eval vm_compute in ("<<<M2024>>>" ++ check (runes_of_ascii "root
-packet crc
-    { f32a @calculatedFrom( """ ++ [233]%N ++ runes_of_ascii "t" ++ [233]%N ++ runes_of_ascii """ )
-    `say ""hi""`, lengthOf `` ,")).
-Eval vm_compute in ("<<<M3305>>>" ++ check (runes_of_ascii "packet o { @tag( 42 )
+options{
+	}")).
+Eval vm_compute in ("<<<M853>>>" ++ check (runes_of_ascii "packet A {
+  match k as n {
+    [""a"", ""bb"", ""c c"", ""d"", ""e"", ""f"", ""g"", ""h""] : B,
+    2 : C
+  },
+}")).
+Eval vm_compute in ("<<<M1139>>>" ++ check (runes_of_ascii "packet Logon { @tag( 42
 // c
-repeat x { char[ 0123456789 ] i64_ , } , } options { }")).
-Eval vm_compute in ("<<<M4457>>>" ++ check (runes_of_ascii "root packet options1 {
-    @calculatedFrom(""" ++ [128512]%N ++ runes_of_ascii """)
-    u8x @calculatedFrom(""a\\""),
+) @rightPad ( ' ' ) @leftPad ( ) repeat trueish { string T , } , }")).
+Eval vm_compute in ("<<<M1171>>>" ++ check (runes_of_ascii "packet Logon { @tag( 42 ) @rightPad ( ' ' ) @leftPad ( ) repeat trueish { string T , } ,
+// c
 }")).
-Eval vm_compute in ("<<<M3779>>>" ++ check (runes_of_ascii "MetaData M {
-    u8 x `a
-        
-        b`,
-    T t `a
-        
-        b`,
+Eval vm_compute in ("<<<M384>>>" ++ check (runes_of_ascii "root packet SimpleMessage {
+    uint16 MsgType `" ++ [28040; 24687; 31867; 22411]%N ++ runes_of_ascii "`,
+    string JsonBody `Json" ++ [23383; 31526; 20018; 28040; 24687; 20307]%N ++ runes_of_ascii "`,
 }")).
-Eval vm_compute in ("<<<M989>>>" ++ check (runes_of_ascii "packet falsey {
-} options{
-}
-    options{
-body
-= '0' } MetaData o
-{
-    }
+Eval vm_compute in ("<<<M1085>>>" ++ check (runes_of_ascii "packet A { match k as n // a
+ { // b
+ 1 // c
+ : // d
+ B // e
+ , // f
+ } // g
+ , // h
+ }")).
+Eval vm_compute in ("<<<M1729>>>" ++ check (runes_of_ascii "MetaData
+_x
+    {
+zchar[	4294967296	]
+    lengthOf `// not a comment` 
+// c
+
+,
+}")).
+Eval vm_compute in ("<<<M1222>>>" ++ check (runes_of_ascii "packet o { @tag( 42 ) repeat x // c
+{ char[ 0123456789 ] i64_ , } , } options { }")).
+Eval vm_compute in ("<<<M231>>>" ++ check (runes_of_ascii "MetaData Z9_
+    { a1
+//
+/// triple
+Z9_
+    , zchar[ 10	] x
+    , } options { }
 ")).
-Eval vm_compute in ("<<<M2906>>>" ++ check (runes_of_ascii "packet A {
+Eval vm_compute in ("<<<M1601>>>" ++ check (runes_of_ascii "
+
+  packet A
+{
+B b
+
+`tab
+	x` ,
+B 
+`tab
+	x`
+,
+    repeat
+B bs 
+`tab
+	x`
+
+, } ")).
+Eval vm_compute in ("<<<M440>>>" ++ check (runes_of_ascii "options
+{
+matchKey = 42/// triple
+x='0' ;
+// packet A { u8 x, }
+//
+charz")).
+Eval vm_compute in ("<<<M792>>>" ++ check (runes_of_ascii "packet A {
   match k as n {
-    [1, 22, ""c c"", 4, 5] : B,
+    [""a"", 22, ""c c""] : B,
     2 : C
   },
 }")).
-Eval vm_compute in ("<<<M146>>>" ++ check (runes_of_ascii "// `tick` ""quote"" 'q'
-options { leftPad =float32
-} root
-packet o
-{ }
-")).
-Eval vm_compute in ("<<<M3397>>>" ++ check (runes_of_ascii "MetaData _x // c
-{ zchar[ 4294967296 ] lengthOf `// not a comment` , }")).
-Eval vm_compute in ("<<<M3633>>>" ++ check (runes_of_ascii "packet falsey{ } 
-options	{}options 
-{
-body = 
-'0'
-	} MetaData
-
-o{
-
+Eval vm_compute in ("<<<M790>>>" ++ check (runes_of_ascii "packet A {
+  match k as n {
+    [1, ""bb"", 007] : B,
+    2 : C
+  },
 }")).
-Eval vm_compute in ("<<<M1032>>>" ++ check (runes_of_ascii "options { Logon
-=
+Eval vm_compute in ("<<<M362>>>" ++ check (runes_of_ascii "//x
+MetaData msg_type
+    {// a // b
+uint32 pack
+`tab	here`, }
+")).
+Eval vm_compute in ("<<<M1376>>>" ++ check (runes_of_ascii "root packet P {
+    repeat string ss,
+    repeat u16 ns,
+}
+")).
+Eval vm_compute in ("<<<M138>>>" ++ check (runes_of_ascii "MetaData
     /// triple
-    4294967296 metadata = """ ++ [28040; 24687]%N ++ runes_of_ascii """ }
-")).
-Eval vm_compute in ("<<<M3009>>>" ++ check (runes_of_ascii "packet A {
-    B b `a
-b`,
-    B `a
-b`,
-    repeat B bs `a
-b`,
+    falsey { uint16 Z9_ ,
 }")).
-Eval vm_compute in ("<<<M3268>>>" ++ check (runes_of_ascii "options { // c1
-u8x // c2a
-  // c2b
-= // c3a
-  // c3b
-3 } // c5
-")).
-Eval vm_compute in ("<<<M546>>>" ++ check (runes_of_ascii "options
-// c
-// a // b
-{
-packetx=
-    1 ;
-    body =char[] }")).
-Eval vm_compute in ("<<<M1210>>>" ++ check (runes_of_ascii "options
-    {matchKey // `tick` ""quote"" 'q'
-='0' // " ++ [27880; 37322]%N ++ runes_of_ascii "
-; }
-")).
-Eval vm_compute in ("<<<M1906>>>" ++ check (runes_of_ascii "
-packet	As { { @calculatedFrom(//x
-""{,}""	)lengthOf , } 	 ")).
-Eval vm_compute in ("<<<M1954>>>" ++ check (runes_of_ascii "
-packet	As { @calculatedFrom(//x
-""{,}""	)le""ngthOf , } 	 ")).
-Eval vm_compute in ("<<<M4127>>>" ++ check (runes_of_ascii "packet A {
-    u8 x,
-}// a
+Eval vm_compute in ("<<<M1094>>>" ++ check (runes_of_ascii "packet A { char[ // a
+ 3 // b
+ ] // c
+ x, }")).
+Eval vm_compute in ("<<<M1114>>>" ++ check (runes_of_ascii "MetaData zchar { zchar[ 3 ] // c
+Pad , }")).
+Eval vm_compute in ("<<<M1608>>>" ++ check (runes_of_ascii "  // c
+		packet lengthOf	{
 
-// b
-packet B {
-}// c
-// d")).
-Eval vm_compute in ("<<<M3048>>>" ++ check (runes_of_ascii "MetaData M {
-    u8 x `tab
-	x`,
-    T t `tab
-	x`,
-}")).
-Eval vm_compute in ("<<<M1329>>>" ++ check (runes_of_ascii "packet As  {
-//x
-// " ++ [128512]%N ++ runes_of_ascii " emoji
-repeat
-char zchar , }")).
-Eval vm_compute in ("<<<M4239>>>" ++ check (runes_of_ascii "  MetaData zchar
-{	// c
-    zchar[ 3 ]
-Pad  , }")).
-Eval vm_compute in ("<<<M4492>>>" ++ check (runes_of_ascii "
-// c
-	MetaData
-zchar 
-{	zchar[ 3 ]
-	Pad
-
-,}
-")).
-Eval vm_compute in ("<<<M2647>>>" ++ check (runes_of_ascii "MetaData M { u8 x `d` , y z `e`, char[3] w, }")).
-Eval vm_compute in ("<<<M1155>>>" ++ check (runes_of_ascii "MetaData	u8x {
-// a // b
-// c
-chars crc, }
-")).
-Eval vm_compute in ("<<<M76>>>" ++ check (runes_of_ascii "options { repeatCount= 00 ; }
-// " ++ [128512]%N ++ runes_of_ascii " emoji
-")).
-Eval vm_compute in ("<<<M2110>>>" ++ check (runes_of_ascii "MetaData x
-{ {// " ++ [128512]%N ++ runes_of_ascii " emoji
-i16 stringy , }")).
-Eval vm_compute in ("<<<M3205>>>" ++ check (runes_of_ascii "MetaData zchar { zchar[ 3 ] Pad ,
-// c
-}")).
-Eval vm_compute in ("<<<M1738>>>" ++ check (runes_of_ascii " { }options {  } // `tick` ""quote"" 'q'")).
-Eval vm_compute in ("<<<M2109>>>" ++ check (runes_of_ascii "MetaData x
-// " ++ [128512]%N ++ runes_of_ascii " emoji
-i16 stringy , }")).
-Eval vm_compute in ("<<<M197>>>" ++ check (runes_of_ascii "  options { leftPad =	""it's""
-    }
-")).
-Eval vm_compute in ("<<<M3843>>>" ++ check (runes_of_ascii "
-options
-
-{	falsey
-    = false
-	} ")).
-Eval vm_compute in ("<<<M3128>>>" ++ check (runes_of_ascii "packet A {
- u8 x `d 	`, // c 	
-}")).
-Eval vm_compute in ("<<<M2085>>>" ++ check (runes_of_ascii "MetaD'\x01'ata A { u64 pack, }")).
-Eval vm_compute in ("<<<M1641>>>" ++ check (runes_of_ascii "root packet /// triple
-rootA")).
-Eval vm_compute in ("<<<M3002>>>" ++ check (runes_of_ascii "packet A {
-    u8 x `a
-b`,
-}")).
-Eval vm_compute in ("<<<M288>>>" ++ check (runes_of_ascii "packet
-repeatCount {
     }")).
-Eval vm_compute in ("<<<M1720>>>" ++ check (runes_of_ascii "root packet /// triple
-r")).
-Eval vm_compute in ("<<<M1034>>>" ++ check (runes_of_ascii "root packet a1 //	t
-{ }")).
-Eval vm_compute in ("<<<M3386>>>" ++ check (runes_of_ascii "packet lengthOf { // c
+Eval vm_compute in ("<<<M1773>>>" ++ check (runes_of_ascii "packet A
+    { u8 x
+`x
+`  ,
+	} ")).
+Eval vm_compute in ("<<<M1037>>>" ++ check (runes_of_ascii "packet A {
+ u8 x `d" ++ [12]%N ++ runes_of_ascii "`, // c" ++ [12]%N ++ runes_of_ascii "
 }")).
-Eval vm_compute in ("<<<M319>>>" ++ check (runes_of_ascii "MetaData
-    i64_ { }
-")).
-Eval vm_compute in ("<<<M2075>>>" ++ check (runes_of_ascii "MetaData A { u64 pack")).
-Eval vm_compute in ("<<<M2768>>>" ++ check (runes_of_ascii "} float64 ""a	b"" : u8")).
-Eval vm_compute in ("<<<M3994>>>" ++ check (runes_of_ascii "
+Eval vm_compute in ("<<<M1977>>>" ++ check (runes_of_ascii "
 
-  packet float{} ")).
-Eval vm_compute in ("<<<M3076>>>" ++ check (runes_of_ascii "packet A {
-}
-// c" ++ [133]%N)).
-Eval vm_compute in ("<<<M1063>>>" ++ check (runes_of_ascii "packet x_y_z {
-}
+  packet	A 
+{  }  // c" ++ [160]%N ++ runes_of_ascii "
 ")).
-Eval vm_compute in ("<<<M3129>>>" ++ check (runes_of_ascii "packet A {
-}// c" ++ [8203]%N)).
-Eval vm_compute in ("<<<M2491>>>" ++ check (runes_of_ascii "@calculatedFrom")).
-Eval vm_compute in ("<<<M3649>>>" ++ check (runes_of_ascii "
-options
-{ } ")).
-Eval vm_compute in ("<<<M2483>>>" ++ check (runes_of_ascii "@centerPad")).
-Eval vm_compute in ("<<<M1904>>>" ++ check (runes_of_ascii "
-packet")).
-Eval vm_compute in ("<<<M2555>>>" ++ check (runes_of_ascii "// " ++ [233]%N ++ runes_of_ascii "
-" ++ [21517]%N)).
-Eval vm_compute in ("<<<M2786>>>" ++ check ([65533; 17; 65533; 31; 65533]%N)).
-Eval vm_compute in ("<<<M2488>>>" ++ check (runes_of_ascii "@tag")).
-Eval vm_compute in ("<<<M2521>>>" ++ check (runes_of_ascii "`\`")).
-Eval vm_compute in ("<<<M2518>>>" ++ check (runes_of_ascii "`a")).
-Eval vm_compute in ("<<<M2763>>>" ++ check ([65533]%N)).
+Eval vm_compute in ("<<<M1978>>>" ++ check (runes_of_ascii "packet A {
+}// a// b// c")).
+Eval vm_compute in ("<<<M1060>>>" ++ check (runes_of_ascii "packet A {
+}
+// c x")).
+Eval vm_compute in ("<<<M1035>>>" ++ check (runes_of_ascii "packet A {
+}
+// c" ++ [12]%N)).
+Eval vm_compute in ("<<<M1048>>>" ++ check (runes_of_ascii "packet A {
+}// c" ++ [65279]%N)).
+Eval vm_compute in ("<<<M770>>>" ++ check (runes_of_ascii "uint8 i8")).
+Eval vm_compute in ("<<<M735>>>" ++ check (runes_of_ascii " " ++ [12]%N ++ runes_of_ascii " ")).
